@@ -78,15 +78,6 @@ let eqb b1 b2 =
 
 module Nat =
  struct
-  (** val sub : nat -> nat -> nat **)
-
-  let rec sub n0 m =
-    match n0 with
-    | O -> n0
-    | S k -> (match m with
-              | O -> n0
-              | S l -> sub k l)
-
   (** val eqb : nat -> nat -> bool **)
 
   let rec eqb n0 m =
@@ -144,12 +135,6 @@ module Nat =
   let div x y = match y with
   | O -> y
   | S y' -> fst (divmod x y' O y')
-
-  (** val modulo : nat -> nat -> nat **)
-
-  let modulo x = function
-  | O -> x
-  | S y' -> sub y' (snd (divmod x y' O y'))
  end
 
 module Pos =
@@ -676,15 +661,6 @@ let rec nth n0 l default =
             | [] -> default
             | _ :: t -> nth m t default)
 
-(** val last : 'a1 list -> 'a1 -> 'a1 **)
-
-let rec last l d =
-  match l with
-  | [] -> d
-  | a :: l0 -> (match l0 with
-                | [] -> a
-                | _ :: _ -> last l0 d)
-
 (** val removelast : 'a1 list -> 'a1 list **)
 
 let rec removelast = function
@@ -705,12 +681,6 @@ let rec map f = function
 | [] -> []
 | a :: t -> (f a) :: (map f t)
 
-(** val flat_map : ('a1 -> 'a2 list) -> 'a1 list -> 'a2 list **)
-
-let rec flat_map f = function
-| [] -> []
-| x :: t -> app (f x) (flat_map f t)
-
 (** val fold_left : ('a1 -> 'a2 -> 'a1) -> 'a2 list -> 'a1 -> 'a1 **)
 
 let rec fold_left f l a0 =
@@ -729,22 +699,6 @@ let rec fold_right f a0 = function
 let rec existsb f = function
 | [] -> false
 | a :: l0 -> (||) (f a) (existsb f l0)
-
-(** val forallb : ('a1 -> bool) -> 'a1 list -> bool **)
-
-let rec forallb f = function
-| [] -> true
-| a :: l0 -> (&&) (f a) (forallb f l0)
-
-(** val combine : 'a1 list -> 'a2 list -> ('a1 * 'a2) list **)
-
-let rec combine l l' =
-  match l with
-  | [] -> []
-  | x :: tl0 ->
-    (match l' with
-     | [] -> []
-     | y :: tl' -> (x, y) :: (combine tl0 tl'))
 
 (** val firstn : nat -> 'a1 list -> 'a1 list **)
 
@@ -923,11 +877,6 @@ let rec omap f = function
 
 let ofN n0 =
   VN n0
-
-(** val ofnat : nat -> val0 **)
-
-let ofnat n0 =
-  VN (N.of_nat n0)
 
 (** val ofbool : bool -> val0 **)
 
@@ -1168,89 +1117,6 @@ let ascii_base = function
          | _ -> N0)
       | _ -> N0)
    | XH -> N0)
-
-(** val ascii_valid : n -> bool **)
-
-let ascii_valid = function
-| N0 -> false
-| Npos p ->
-  (match p with
-   | XI p0 ->
-     (match p0 with
-      | XI p1 ->
-        (match p1 with
-         | XI p2 ->
-           (match p2 with
-            | XO p3 ->
-              (match p3 with
-               | XO p4 ->
-                 (match p4 with
-                  | XI p5 -> (match p5 with
-                              | XH -> true
-                              | _ -> false)
-                  | XO p5 -> (match p5 with
-                              | XH -> true
-                              | _ -> false)
-                  | XH -> false)
-               | _ -> false)
-            | _ -> false)
-         | XO p2 ->
-           (match p2 with
-            | XO p3 ->
-              (match p3 with
-               | XO p4 ->
-                 (match p4 with
-                  | XI p5 -> (match p5 with
-                              | XH -> true
-                              | _ -> false)
-                  | XO p5 -> (match p5 with
-                              | XH -> true
-                              | _ -> false)
-                  | XH -> false)
-               | _ -> false)
-            | _ -> false)
-         | XH -> false)
-      | XO p1 ->
-        (match p1 with
-         | XO p2 ->
-           (match p2 with
-            | XO p3 ->
-              (match p3 with
-               | XO p4 ->
-                 (match p4 with
-                  | XI p5 -> (match p5 with
-                              | XH -> true
-                              | _ -> false)
-                  | XO p5 -> (match p5 with
-                              | XH -> true
-                              | _ -> false)
-                  | XH -> false)
-               | _ -> false)
-            | _ -> false)
-         | _ -> false)
-      | XH -> false)
-   | XO p0 ->
-     (match p0 with
-      | XO p1 ->
-        (match p1 with
-         | XI p2 ->
-           (match p2 with
-            | XO p3 ->
-              (match p3 with
-               | XI p4 ->
-                 (match p4 with
-                  | XI p5 -> (match p5 with
-                              | XH -> true
-                              | _ -> false)
-                  | XO p5 -> (match p5 with
-                              | XH -> true
-                              | _ -> false)
-                  | XH -> false)
-               | _ -> false)
-            | _ -> false)
-         | _ -> false)
-      | _ -> false)
-   | XH -> false)
 
 (** val digits4 : nat -> n -> dna **)
 
@@ -1544,182 +1410,6 @@ let lower_of_two_128 =
     (XO
     XH))))))))))))))))))))))))))))))))))))))))))))))))))))))))))))))))))))))))))))))))))))))))))))))))))))))))))))))))))))))))))))))
 
-(** val tbl_bits_to_ascii : n list **)
-
-let tbl_bits_to_ascii =
-  (Npos (XI (XO (XO (XO (XO (XO XH))))))) :: ((Npos (XI (XI (XO (XO (XO (XO
-    XH))))))) :: ((Npos (XI (XI (XI (XO (XO (XO XH))))))) :: ((Npos (XO (XO
-    (XI (XO (XI (XO XH))))))) :: ((Npos (XO (XO (XO (XI (XI (XO
-    XH))))))) :: ((Npos (XO (XO (XO (XI (XI (XO XH))))))) :: ((Npos (XO (XO
-    (XO (XI (XI (XO XH))))))) :: ((Npos (XO (XO (XO (XI (XI (XO
-    XH))))))) :: ((Npos (XO (XO (XO (XI (XI (XO XH))))))) :: ((Npos (XO (XO
-    (XO (XI (XI (XO XH))))))) :: ((Npos (XO (XO (XO (XI (XI (XO
-    XH))))))) :: ((Npos (XO (XO (XO (XI (XI (XO XH))))))) :: ((Npos (XO (XO
-    (XO (XI (XI (XO XH))))))) :: ((Npos (XO (XO (XO (XI (XI (XO
-    XH))))))) :: ((Npos (XO (XO (XO (XI (XI (XO XH))))))) :: ((Npos (XO (XO
-    (XO (XI (XI (XO XH))))))) :: ((Npos (XO (XO (XO (XI (XI (XO
-    XH))))))) :: ((Npos (XO (XO (XO (XI (XI (XO XH))))))) :: ((Npos (XO (XO
-    (XO (XI (XI (XO XH))))))) :: ((Npos (XO (XO (XO (XI (XI (XO
-    XH))))))) :: ((Npos (XO (XO (XO (XI (XI (XO XH))))))) :: ((Npos (XO (XO
-    (XO (XI (XI (XO XH))))))) :: ((Npos (XO (XO (XO (XI (XI (XO
-    XH))))))) :: ((Npos (XO (XO (XO (XI (XI (XO XH))))))) :: ((Npos (XO (XO
-    (XO (XI (XI (XO XH))))))) :: ((Npos (XO (XO (XO (XI (XI (XO
-    XH))))))) :: ((Npos (XO (XO (XO (XI (XI (XO XH))))))) :: ((Npos (XO (XO
-    (XO (XI (XI (XO XH))))))) :: ((Npos (XO (XO (XO (XI (XI (XO
-    XH))))))) :: ((Npos (XO (XO (XO (XI (XI (XO XH))))))) :: ((Npos (XO (XO
-    (XO (XI (XI (XO XH))))))) :: ((Npos (XO (XO (XO (XI (XI (XO
-    XH))))))) :: ((Npos (XO (XO (XO (XI (XI (XO XH))))))) :: ((Npos (XO (XO
-    (XO (XI (XI (XO XH))))))) :: ((Npos (XO (XO (XO (XI (XI (XO
-    XH))))))) :: ((Npos (XO (XO (XO (XI (XI (XO XH))))))) :: ((Npos (XO (XO
-    (XO (XI (XI (XO XH))))))) :: ((Npos (XO (XO (XO (XI (XI (XO
-    XH))))))) :: ((Npos (XO (XO (XO (XI (XI (XO XH))))))) :: ((Npos (XO (XO
-    (XO (XI (XI (XO XH))))))) :: ((Npos (XO (XO (XO (XI (XI (XO
-    XH))))))) :: ((Npos (XO (XO (XO (XI (XI (XO XH))))))) :: ((Npos (XO (XO
-    (XO (XI (XI (XO XH))))))) :: ((Npos (XO (XO (XO (XI (XI (XO
-    XH))))))) :: ((Npos (XO (XO (XO (XI (XI (XO XH))))))) :: ((Npos (XO (XO
-    (XO (XI (XI (XO XH))))))) :: ((Npos (XO (XO (XO (XI (XI (XO
-    XH))))))) :: ((Npos (XO (XO (XO (XI (XI (XO XH))))))) :: ((Npos (XO (XO
-    (XO (XI (XI (XO XH))))))) :: ((Npos (XO (XO (XO (XI (XI (XO
-    XH))))))) :: ((Npos (XO (XO (XO (XI (XI (XO XH))))))) :: ((Npos (XO (XO
-    (XO (XI (XI (XO XH))))))) :: ((Npos (XO (XO (XO (XI (XI (XO
-    XH))))))) :: ((Npos (XO (XO (XO (XI (XI (XO XH))))))) :: ((Npos (XO (XO
-    (XO (XI (XI (XO XH))))))) :: ((Npos (XO (XO (XO (XI (XI (XO
-    XH))))))) :: ((Npos (XO (XO (XO (XI (XI (XO XH))))))) :: ((Npos (XO (XO
-    (XO (XI (XI (XO XH))))))) :: ((Npos (XO (XO (XO (XI (XI (XO
-    XH))))))) :: ((Npos (XO (XO (XO (XI (XI (XO XH))))))) :: ((Npos (XO (XO
-    (XO (XI (XI (XO XH))))))) :: ((Npos (XO (XO (XO (XI (XI (XO
-    XH))))))) :: ((Npos (XO (XO (XO (XI (XI (XO XH))))))) :: ((Npos (XO (XO
-    (XO (XI (XI (XO XH))))))) :: ((Npos (XO (XO (XO (XI (XI (XO
-    XH))))))) :: ((Npos (XO (XO (XO (XI (XI (XO XH))))))) :: ((Npos (XO (XO
-    (XO (XI (XI (XO XH))))))) :: ((Npos (XO (XO (XO (XI (XI (XO
-    XH))))))) :: ((Npos (XO (XO (XO (XI (XI (XO XH))))))) :: ((Npos (XO (XO
-    (XO (XI (XI (XO XH))))))) :: ((Npos (XO (XO (XO (XI (XI (XO
-    XH))))))) :: ((Npos (XO (XO (XO (XI (XI (XO XH))))))) :: ((Npos (XO (XO
-    (XO (XI (XI (XO XH))))))) :: ((Npos (XO (XO (XO (XI (XI (XO
-    XH))))))) :: ((Npos (XO (XO (XO (XI (XI (XO XH))))))) :: ((Npos (XO (XO
-    (XO (XI (XI (XO XH))))))) :: ((Npos (XO (XO (XO (XI (XI (XO
-    XH))))))) :: ((Npos (XO (XO (XO (XI (XI (XO XH))))))) :: ((Npos (XO (XO
-    (XO (XI (XI (XO XH))))))) :: ((Npos (XO (XO (XO (XI (XI (XO
-    XH))))))) :: ((Npos (XO (XO (XO (XI (XI (XO XH))))))) :: ((Npos (XO (XO
-    (XO (XI (XI (XO XH))))))) :: ((Npos (XO (XO (XO (XI (XI (XO
-    XH))))))) :: ((Npos (XO (XO (XO (XI (XI (XO XH))))))) :: ((Npos (XO (XO
-    (XO (XI (XI (XO XH))))))) :: ((Npos (XO (XO (XO (XI (XI (XO
-    XH))))))) :: ((Npos (XO (XO (XO (XI (XI (XO XH))))))) :: ((Npos (XO (XO
-    (XO (XI (XI (XO XH))))))) :: ((Npos (XO (XO (XO (XI (XI (XO
-    XH))))))) :: ((Npos (XO (XO (XO (XI (XI (XO XH))))))) :: ((Npos (XO (XO
-    (XO (XI (XI (XO XH))))))) :: ((Npos (XO (XO (XO (XI (XI (XO
-    XH))))))) :: ((Npos (XO (XO (XO (XI (XI (XO XH))))))) :: ((Npos (XO (XO
-    (XO (XI (XI (XO XH))))))) :: ((Npos (XO (XO (XO (XI (XI (XO
-    XH))))))) :: ((Npos (XO (XO (XO (XI (XI (XO XH))))))) :: ((Npos (XO (XO
-    (XO (XI (XI (XO XH))))))) :: ((Npos (XO (XO (XO (XI (XI (XO
-    XH))))))) :: ((Npos (XO (XO (XO (XI (XI (XO XH))))))) :: ((Npos (XO (XO
-    (XO (XI (XI (XO XH))))))) :: ((Npos (XO (XO (XO (XI (XI (XO
-    XH))))))) :: ((Npos (XO (XO (XO (XI (XI (XO XH))))))) :: ((Npos (XO (XO
-    (XO (XI (XI (XO XH))))))) :: ((Npos (XO (XO (XO (XI (XI (XO
-    XH))))))) :: ((Npos (XO (XO (XO (XI (XI (XO XH))))))) :: ((Npos (XO (XO
-    (XO (XI (XI (XO XH))))))) :: ((Npos (XO (XO (XO (XI (XI (XO
-    XH))))))) :: ((Npos (XO (XO (XO (XI (XI (XO XH))))))) :: ((Npos (XO (XO
-    (XO (XI (XI (XO XH))))))) :: ((Npos (XO (XO (XO (XI (XI (XO
-    XH))))))) :: ((Npos (XO (XO (XO (XI (XI (XO XH))))))) :: ((Npos (XO (XO
-    (XO (XI (XI (XO XH))))))) :: ((Npos (XO (XO (XO (XI (XI (XO
-    XH))))))) :: ((Npos (XO (XO (XO (XI (XI (XO XH))))))) :: ((Npos (XO (XO
-    (XO (XI (XI (XO XH))))))) :: ((Npos (XO (XO (XO (XI (XI (XO
-    XH))))))) :: ((Npos (XO (XO (XO (XI (XI (XO XH))))))) :: ((Npos (XO (XO
-    (XO (XI (XI (XO XH))))))) :: ((Npos (XO (XO (XO (XI (XI (XO
-    XH))))))) :: ((Npos (XO (XO (XO (XI (XI (XO XH))))))) :: ((Npos (XO (XO
-    (XO (XI (XI (XO XH))))))) :: ((Npos (XO (XO (XO (XI (XI (XO
-    XH))))))) :: ((Npos (XO (XO (XO (XI (XI (XO XH))))))) :: ((Npos (XO (XO
-    (XO (XI (XI (XO XH))))))) :: ((Npos (XO (XO (XO (XI (XI (XO
-    XH))))))) :: ((Npos (XO (XO (XO (XI (XI (XO XH))))))) :: ((Npos (XO (XO
-    (XO (XI (XI (XO XH))))))) :: ((Npos (XO (XO (XO (XI (XI (XO
-    XH))))))) :: ((Npos (XO (XO (XO (XI (XI (XO XH))))))) :: ((Npos (XO (XO
-    (XO (XI (XI (XO XH))))))) :: ((Npos (XO (XO (XO (XI (XI (XO
-    XH))))))) :: ((Npos (XO (XO (XO (XI (XI (XO XH))))))) :: ((Npos (XO (XO
-    (XO (XI (XI (XO XH))))))) :: ((Npos (XO (XO (XO (XI (XI (XO
-    XH))))))) :: ((Npos (XO (XO (XO (XI (XI (XO XH))))))) :: ((Npos (XO (XO
-    (XO (XI (XI (XO XH))))))) :: ((Npos (XO (XO (XO (XI (XI (XO
-    XH))))))) :: ((Npos (XO (XO (XO (XI (XI (XO XH))))))) :: ((Npos (XO (XO
-    (XO (XI (XI (XO XH))))))) :: ((Npos (XO (XO (XO (XI (XI (XO
-    XH))))))) :: ((Npos (XO (XO (XO (XI (XI (XO XH))))))) :: ((Npos (XO (XO
-    (XO (XI (XI (XO XH))))))) :: ((Npos (XO (XO (XO (XI (XI (XO
-    XH))))))) :: ((Npos (XO (XO (XO (XI (XI (XO XH))))))) :: ((Npos (XO (XO
-    (XO (XI (XI (XO XH))))))) :: ((Npos (XO (XO (XO (XI (XI (XO
-    XH))))))) :: ((Npos (XO (XO (XO (XI (XI (XO XH))))))) :: ((Npos (XO (XO
-    (XO (XI (XI (XO XH))))))) :: ((Npos (XO (XO (XO (XI (XI (XO
-    XH))))))) :: ((Npos (XO (XO (XO (XI (XI (XO XH))))))) :: ((Npos (XO (XO
-    (XO (XI (XI (XO XH))))))) :: ((Npos (XO (XO (XO (XI (XI (XO
-    XH))))))) :: ((Npos (XO (XO (XO (XI (XI (XO XH))))))) :: ((Npos (XO (XO
-    (XO (XI (XI (XO XH))))))) :: ((Npos (XO (XO (XO (XI (XI (XO
-    XH))))))) :: ((Npos (XO (XO (XO (XI (XI (XO XH))))))) :: ((Npos (XO (XO
-    (XO (XI (XI (XO XH))))))) :: ((Npos (XO (XO (XO (XI (XI (XO
-    XH))))))) :: ((Npos (XO (XO (XO (XI (XI (XO XH))))))) :: ((Npos (XO (XO
-    (XO (XI (XI (XO XH))))))) :: ((Npos (XO (XO (XO (XI (XI (XO
-    XH))))))) :: ((Npos (XO (XO (XO (XI (XI (XO XH))))))) :: ((Npos (XO (XO
-    (XO (XI (XI (XO XH))))))) :: ((Npos (XO (XO (XO (XI (XI (XO
-    XH))))))) :: ((Npos (XO (XO (XO (XI (XI (XO XH))))))) :: ((Npos (XO (XO
-    (XO (XI (XI (XO XH))))))) :: ((Npos (XO (XO (XO (XI (XI (XO
-    XH))))))) :: ((Npos (XO (XO (XO (XI (XI (XO XH))))))) :: ((Npos (XO (XO
-    (XO (XI (XI (XO XH))))))) :: ((Npos (XO (XO (XO (XI (XI (XO
-    XH))))))) :: ((Npos (XO (XO (XO (XI (XI (XO XH))))))) :: ((Npos (XO (XO
-    (XO (XI (XI (XO XH))))))) :: ((Npos (XO (XO (XO (XI (XI (XO
-    XH))))))) :: ((Npos (XO (XO (XO (XI (XI (XO XH))))))) :: ((Npos (XO (XO
-    (XO (XI (XI (XO XH))))))) :: ((Npos (XO (XO (XO (XI (XI (XO
-    XH))))))) :: ((Npos (XO (XO (XO (XI (XI (XO XH))))))) :: ((Npos (XO (XO
-    (XO (XI (XI (XO XH))))))) :: ((Npos (XO (XO (XO (XI (XI (XO
-    XH))))))) :: ((Npos (XO (XO (XO (XI (XI (XO XH))))))) :: ((Npos (XO (XO
-    (XO (XI (XI (XO XH))))))) :: ((Npos (XO (XO (XO (XI (XI (XO
-    XH))))))) :: ((Npos (XO (XO (XO (XI (XI (XO XH))))))) :: ((Npos (XO (XO
-    (XO (XI (XI (XO XH))))))) :: ((Npos (XO (XO (XO (XI (XI (XO
-    XH))))))) :: ((Npos (XO (XO (XO (XI (XI (XO XH))))))) :: ((Npos (XO (XO
-    (XO (XI (XI (XO XH))))))) :: ((Npos (XO (XO (XO (XI (XI (XO
-    XH))))))) :: ((Npos (XO (XO (XO (XI (XI (XO XH))))))) :: ((Npos (XO (XO
-    (XO (XI (XI (XO XH))))))) :: ((Npos (XO (XO (XO (XI (XI (XO
-    XH))))))) :: ((Npos (XO (XO (XO (XI (XI (XO XH))))))) :: ((Npos (XO (XO
-    (XO (XI (XI (XO XH))))))) :: ((Npos (XO (XO (XO (XI (XI (XO
-    XH))))))) :: ((Npos (XO (XO (XO (XI (XI (XO XH))))))) :: ((Npos (XO (XO
-    (XO (XI (XI (XO XH))))))) :: ((Npos (XO (XO (XO (XI (XI (XO
-    XH))))))) :: ((Npos (XO (XO (XO (XI (XI (XO XH))))))) :: ((Npos (XO (XO
-    (XO (XI (XI (XO XH))))))) :: ((Npos (XO (XO (XO (XI (XI (XO
-    XH))))))) :: ((Npos (XO (XO (XO (XI (XI (XO XH))))))) :: ((Npos (XO (XO
-    (XO (XI (XI (XO XH))))))) :: ((Npos (XO (XO (XO (XI (XI (XO
-    XH))))))) :: ((Npos (XO (XO (XO (XI (XI (XO XH))))))) :: ((Npos (XO (XO
-    (XO (XI (XI (XO XH))))))) :: ((Npos (XO (XO (XO (XI (XI (XO
-    XH))))))) :: ((Npos (XO (XO (XO (XI (XI (XO XH))))))) :: ((Npos (XO (XO
-    (XO (XI (XI (XO XH))))))) :: ((Npos (XO (XO (XO (XI (XI (XO
-    XH))))))) :: ((Npos (XO (XO (XO (XI (XI (XO XH))))))) :: ((Npos (XO (XO
-    (XO (XI (XI (XO XH))))))) :: ((Npos (XO (XO (XO (XI (XI (XO
-    XH))))))) :: ((Npos (XO (XO (XO (XI (XI (XO XH))))))) :: ((Npos (XO (XO
-    (XO (XI (XI (XO XH))))))) :: ((Npos (XO (XO (XO (XI (XI (XO
-    XH))))))) :: ((Npos (XO (XO (XO (XI (XI (XO XH))))))) :: ((Npos (XO (XO
-    (XO (XI (XI (XO XH))))))) :: ((Npos (XO (XO (XO (XI (XI (XO
-    XH))))))) :: ((Npos (XO (XO (XO (XI (XI (XO XH))))))) :: ((Npos (XO (XO
-    (XO (XI (XI (XO XH))))))) :: ((Npos (XO (XO (XO (XI (XI (XO
-    XH))))))) :: ((Npos (XO (XO (XO (XI (XI (XO XH))))))) :: ((Npos (XO (XO
-    (XO (XI (XI (XO XH))))))) :: ((Npos (XO (XO (XO (XI (XI (XO
-    XH))))))) :: ((Npos (XO (XO (XO (XI (XI (XO XH))))))) :: ((Npos (XO (XO
-    (XO (XI (XI (XO XH))))))) :: ((Npos (XO (XO (XO (XI (XI (XO
-    XH))))))) :: ((Npos (XO (XO (XO (XI (XI (XO XH))))))) :: ((Npos (XO (XO
-    (XO (XI (XI (XO XH))))))) :: ((Npos (XO (XO (XO (XI (XI (XO
-    XH))))))) :: ((Npos (XO (XO (XO (XI (XI (XO XH))))))) :: ((Npos (XO (XO
-    (XO (XI (XI (XO XH))))))) :: ((Npos (XO (XO (XO (XI (XI (XO
-    XH))))))) :: ((Npos (XO (XO (XO (XI (XI (XO XH))))))) :: ((Npos (XO (XO
-    (XO (XI (XI (XO XH))))))) :: ((Npos (XO (XO (XO (XI (XI (XO
-    XH))))))) :: ((Npos (XO (XO (XO (XI (XI (XO XH))))))) :: ((Npos (XO (XO
-    (XO (XI (XI (XO XH))))))) :: ((Npos (XO (XO (XO (XI (XI (XO
-    XH))))))) :: ((Npos (XO (XO (XO (XI (XI (XO XH))))))) :: ((Npos (XO (XO
-    (XO (XI (XI (XO XH))))))) :: ((Npos (XO (XO (XO (XI (XI (XO
-    XH))))))) :: ((Npos (XO (XO (XO (XI (XI (XO XH))))))) :: ((Npos (XO (XO
-    (XO (XI (XI (XO XH))))))) :: ((Npos (XO (XO (XO (XI (XI (XO
-    XH))))))) :: ((Npos (XO (XO (XO (XI (XI (XO XH))))))) :: ((Npos (XO (XO
-    (XO (XI (XI (XO XH))))))) :: ((Npos (XO (XO (XO (XI (XI (XO
-    XH))))))) :: ((Npos (XO (XO (XO (XI (XI (XO XH))))))) :: ((Npos (XO (XO
-    (XO (XI (XI (XO XH))))))) :: ((Npos (XO (XO (XO (XI (XI (XO
-    XH))))))) :: ((Npos (XO (XO (XO (XI (XI (XO XH))))))) :: ((Npos (XO (XO
-    (XO (XI (XI (XO XH))))))) :: ((Npos (XO (XO (XO (XI (XI (XO
-    XH))))))) :: ((Npos (XO (XO (XO (XI (XI (XO XH))))))) :: ((Npos (XO (XO
-    (XO (XI (XI (XO
-    XH))))))) :: [])))))))))))))))))))))))))))))))))))))))))))))))))))))))))))))))))))))))))))))))))))))))))))))))))))))))))))))))))))))))))))))))))))))))))))))))))))))))))))))))))))))))))))))))))))))))))))))))))))))))))))))))))))))))))))))))))))))))))))))))))))))))))))))))
-
 (** val tbl_base_to_bits : n list **)
 
 let tbl_base_to_bits =
@@ -1908,329 +1598,6 @@ let tbl_bits_to_base =
     XH))))))) :: ((Npos (XO (XO (XO (XI (XI (XO XH))))))) :: ((Npos (XO (XO
     (XO (XI (XI (XO
     XH))))))) :: [])))))))))))))))))))))))))))))))))))))))))))))))))))))))))))))))))))))))))))))))))))))))))))))))))))))))))))))))))))))))))))))))))))))))))))))))))))))))))))))))))))))))))))))))))))))))))))))))))))))))))))))))))))))))))))))))))))))))))))))))))))))))))))))))
-
-(** val tbl_dna_only_base_to_bits : n list **)
-
-let tbl_dna_only_base_to_bits =
-  (Npos (XO (XO XH))) :: ((Npos (XO (XO XH))) :: ((Npos (XO (XO
-    XH))) :: ((Npos (XO (XO XH))) :: ((Npos (XO (XO XH))) :: ((Npos (XO (XO
-    XH))) :: ((Npos (XO (XO XH))) :: ((Npos (XO (XO XH))) :: ((Npos (XO (XO
-    XH))) :: ((Npos (XO (XO XH))) :: ((Npos (XO (XO XH))) :: ((Npos (XO (XO
-    XH))) :: ((Npos (XO (XO XH))) :: ((Npos (XO (XO XH))) :: ((Npos (XO (XO
-    XH))) :: ((Npos (XO (XO XH))) :: ((Npos (XO (XO XH))) :: ((Npos (XO (XO
-    XH))) :: ((Npos (XO (XO XH))) :: ((Npos (XO (XO XH))) :: ((Npos (XO (XO
-    XH))) :: ((Npos (XO (XO XH))) :: ((Npos (XO (XO XH))) :: ((Npos (XO (XO
-    XH))) :: ((Npos (XO (XO XH))) :: ((Npos (XO (XO XH))) :: ((Npos (XO (XO
-    XH))) :: ((Npos (XO (XO XH))) :: ((Npos (XO (XO XH))) :: ((Npos (XO (XO
-    XH))) :: ((Npos (XO (XO XH))) :: ((Npos (XO (XO XH))) :: ((Npos (XO (XO
-    XH))) :: ((Npos (XO (XO XH))) :: ((Npos (XO (XO XH))) :: ((Npos (XO (XO
-    XH))) :: ((Npos (XO (XO XH))) :: ((Npos (XO (XO XH))) :: ((Npos (XO (XO
-    XH))) :: ((Npos (XO (XO XH))) :: ((Npos (XO (XO XH))) :: ((Npos (XO (XO
-    XH))) :: ((Npos (XO (XO XH))) :: ((Npos (XO (XO XH))) :: ((Npos (XO (XO
-    XH))) :: ((Npos (XO (XO XH))) :: ((Npos (XO (XO XH))) :: ((Npos (XO (XO
-    XH))) :: ((Npos (XO (XO XH))) :: ((Npos (XO (XO XH))) :: ((Npos (XO (XO
-    XH))) :: ((Npos (XO (XO XH))) :: ((Npos (XO (XO XH))) :: ((Npos (XO (XO
-    XH))) :: ((Npos (XO (XO XH))) :: ((Npos (XO (XO XH))) :: ((Npos (XO (XO
-    XH))) :: ((Npos (XO (XO XH))) :: ((Npos (XO (XO XH))) :: ((Npos (XO (XO
-    XH))) :: ((Npos (XO (XO XH))) :: ((Npos (XO (XO XH))) :: ((Npos (XO (XO
-    XH))) :: ((Npos (XO (XO XH))) :: ((Npos (XO (XO XH))) :: (N0 :: ((Npos
-    (XO (XO XH))) :: ((Npos XH) :: ((Npos (XO (XO XH))) :: ((Npos (XO (XO
-    XH))) :: ((Npos (XO (XO XH))) :: ((Npos (XO XH)) :: ((Npos (XO (XO
-    XH))) :: ((Npos (XO (XO XH))) :: ((Npos (XO (XO XH))) :: ((Npos (XO (XO
-    XH))) :: ((Npos (XO (XO XH))) :: ((Npos (XO (XO XH))) :: ((Npos (XO (XO
-    XH))) :: ((Npos (XO (XO XH))) :: ((Npos (XO (XO XH))) :: ((Npos (XO (XO
-    XH))) :: ((Npos (XO (XO XH))) :: ((Npos (XO (XO XH))) :: ((Npos (XI
-    XH)) :: ((Npos (XO (XO XH))) :: ((Npos (XO (XO XH))) :: ((Npos (XO (XO
-    XH))) :: ((Npos (XO (XO XH))) :: ((Npos (XO (XO XH))) :: ((Npos (XO (XO
-    XH))) :: ((Npos (XO (XO XH))) :: ((Npos (XO (XO XH))) :: ((Npos (XO (XO
-    XH))) :: ((Npos (XO (XO XH))) :: ((Npos (XO (XO XH))) :: ((Npos (XO (XO
-    XH))) :: (N0 :: ((Npos (XO (XO XH))) :: ((Npos XH) :: ((Npos (XO (XO
-    XH))) :: ((Npos (XO (XO XH))) :: ((Npos (XO (XO XH))) :: ((Npos (XO
-    XH)) :: ((Npos (XO (XO XH))) :: ((Npos (XO (XO XH))) :: ((Npos (XO (XO
-    XH))) :: ((Npos (XO (XO XH))) :: ((Npos (XO (XO XH))) :: ((Npos (XO (XO
-    XH))) :: ((Npos (XO (XO XH))) :: ((Npos (XO (XO XH))) :: ((Npos (XO (XO
-    XH))) :: ((Npos (XO (XO XH))) :: ((Npos (XO (XO XH))) :: ((Npos (XO (XO
-    XH))) :: ((Npos (XI XH)) :: ((Npos (XO (XO XH))) :: ((Npos (XO (XO
-    XH))) :: ((Npos (XO (XO XH))) :: ((Npos (XO (XO XH))) :: ((Npos (XO (XO
-    XH))) :: ((Npos (XO (XO XH))) :: ((Npos (XO (XO XH))) :: ((Npos (XO (XO
-    XH))) :: ((Npos (XO (XO XH))) :: ((Npos (XO (XO XH))) :: ((Npos (XO (XO
-    XH))) :: ((Npos (XO (XO XH))) :: ((Npos (XO (XO XH))) :: ((Npos (XO (XO
-    XH))) :: ((Npos (XO (XO XH))) :: ((Npos (XO (XO XH))) :: ((Npos (XO (XO
-    XH))) :: ((Npos (XO (XO XH))) :: ((Npos (XO (XO XH))) :: ((Npos (XO (XO
-    XH))) :: ((Npos (XO (XO XH))) :: ((Npos (XO (XO XH))) :: ((Npos (XO (XO
-    XH))) :: ((Npos (XO (XO XH))) :: ((Npos (XO (XO XH))) :: ((Npos (XO (XO
-    XH))) :: ((Npos (XO (XO XH))) :: ((Npos (XO (XO XH))) :: ((Npos (XO (XO
-    XH))) :: ((Npos (XO (XO XH))) :: ((Npos (XO (XO XH))) :: ((Npos (XO (XO
-    XH))) :: ((Npos (XO (XO XH))) :: ((Npos (XO (XO XH))) :: ((Npos (XO (XO
-    XH))) :: ((Npos (XO (XO XH))) :: ((Npos (XO (XO XH))) :: ((Npos (XO (XO
-    XH))) :: ((Npos (XO (XO XH))) :: ((Npos (XO (XO XH))) :: ((Npos (XO (XO
-    XH))) :: ((Npos (XO (XO XH))) :: ((Npos (XO (XO XH))) :: ((Npos (XO (XO
-    XH))) :: ((Npos (XO (XO XH))) :: ((Npos (XO (XO XH))) :: ((Npos (XO (XO
-    XH))) :: ((Npos (XO (XO XH))) :: ((Npos (XO (XO XH))) :: ((Npos (XO (XO
-    XH))) :: ((Npos (XO (XO XH))) :: ((Npos (XO (XO XH))) :: ((Npos (XO (XO
-    XH))) :: ((Npos (XO (XO XH))) :: ((Npos (XO (XO XH))) :: ((Npos (XO (XO
-    XH))) :: ((Npos (XO (XO XH))) :: ((Npos (XO (XO XH))) :: ((Npos (XO (XO
-    XH))) :: ((Npos (XO (XO XH))) :: ((Npos (XO (XO XH))) :: ((Npos (XO (XO
-    XH))) :: ((Npos (XO (XO XH))) :: ((Npos (XO (XO XH))) :: ((Npos (XO (XO
-    XH))) :: ((Npos (XO (XO XH))) :: ((Npos (XO (XO XH))) :: ((Npos (XO (XO
-    XH))) :: ((Npos (XO (XO XH))) :: ((Npos (XO (XO XH))) :: ((Npos (XO (XO
-    XH))) :: ((Npos (XO (XO XH))) :: ((Npos (XO (XO XH))) :: ((Npos (XO (XO
-    XH))) :: ((Npos (XO (XO XH))) :: ((Npos (XO (XO XH))) :: ((Npos (XO (XO
-    XH))) :: ((Npos (XO (XO XH))) :: ((Npos (XO (XO XH))) :: ((Npos (XO (XO
-    XH))) :: ((Npos (XO (XO XH))) :: ((Npos (XO (XO XH))) :: ((Npos (XO (XO
-    XH))) :: ((Npos (XO (XO XH))) :: ((Npos (XO (XO XH))) :: ((Npos (XO (XO
-    XH))) :: ((Npos (XO (XO XH))) :: ((Npos (XO (XO XH))) :: ((Npos (XO (XO
-    XH))) :: ((Npos (XO (XO XH))) :: ((Npos (XO (XO XH))) :: ((Npos (XO (XO
-    XH))) :: ((Npos (XO (XO XH))) :: ((Npos (XO (XO XH))) :: ((Npos (XO (XO
-    XH))) :: ((Npos (XO (XO XH))) :: ((Npos (XO (XO XH))) :: ((Npos (XO (XO
-    XH))) :: ((Npos (XO (XO XH))) :: ((Npos (XO (XO XH))) :: ((Npos (XO (XO
-    XH))) :: ((Npos (XO (XO XH))) :: ((Npos (XO (XO XH))) :: ((Npos (XO (XO
-    XH))) :: ((Npos (XO (XO XH))) :: ((Npos (XO (XO XH))) :: ((Npos (XO (XO
-    XH))) :: ((Npos (XO (XO XH))) :: ((Npos (XO (XO XH))) :: ((Npos (XO (XO
-    XH))) :: ((Npos (XO (XO XH))) :: ((Npos (XO (XO XH))) :: ((Npos (XO (XO
-    XH))) :: ((Npos (XO (XO XH))) :: ((Npos (XO (XO XH))) :: ((Npos (XO (XO
-    XH))) :: ((Npos (XO (XO XH))) :: ((Npos (XO (XO XH))) :: ((Npos (XO (XO
-    XH))) :: ((Npos (XO (XO XH))) :: ((Npos (XO (XO XH))) :: ((Npos (XO (XO
-    XH))) :: ((Npos (XO (XO XH))) :: ((Npos (XO (XO XH))) :: ((Npos (XO (XO
-    XH))) :: ((Npos (XO (XO XH))) :: ((Npos (XO (XO XH))) :: ((Npos (XO (XO
-    XH))) :: ((Npos (XO (XO XH))) :: ((Npos (XO (XO XH))) :: ((Npos (XO (XO
-    XH))) :: ((Npos (XO (XO XH))) :: ((Npos (XO (XO XH))) :: ((Npos (XO (XO
-    XH))) :: ((Npos (XO (XO XH))) :: ((Npos (XO (XO XH))) :: ((Npos (XO (XO
-    XH))) :: ((Npos (XO (XO XH))) :: ((Npos (XO (XO
-    XH))) :: [])))))))))))))))))))))))))))))))))))))))))))))))))))))))))))))))))))))))))))))))))))))))))))))))))))))))))))))))))))))))))))))))))))))))))))))))))))))))))))))))))))))))))))))))))))))))))))))))))))))))))))))))))))))))))))))))))))))))))))))))))))))))))))))))
-
-(** val avx_reverse_mask : n list **)
-
-let avx_reverse_mask =
-  N0 :: ((Npos XH) :: ((Npos (XO XH)) :: ((Npos (XI XH)) :: ((Npos (XO (XO
-    XH))) :: ((Npos (XI (XO XH))) :: ((Npos (XO (XI XH))) :: ((Npos (XI (XI
-    XH))) :: ((Npos (XO (XO (XO XH)))) :: ((Npos (XI (XO (XO XH)))) :: ((Npos
-    (XO (XI (XO XH)))) :: ((Npos (XI (XI (XO XH)))) :: ((Npos (XO (XO (XI
-    XH)))) :: ((Npos (XI (XO (XI XH)))) :: ((Npos (XO (XI (XI
-    XH)))) :: ((Npos (XI (XI (XI XH)))) :: (N0 :: ((Npos XH) :: ((Npos (XO
-    XH)) :: ((Npos (XI XH)) :: ((Npos (XO (XO XH))) :: ((Npos (XI (XO
-    XH))) :: ((Npos (XO (XI XH))) :: ((Npos (XI (XI XH))) :: ((Npos (XO (XO
-    (XO XH)))) :: ((Npos (XI (XO (XO XH)))) :: ((Npos (XO (XI (XO
-    XH)))) :: ((Npos (XI (XI (XO XH)))) :: ((Npos (XO (XO (XI
-    XH)))) :: ((Npos (XI (XO (XI XH)))) :: ((Npos (XO (XI (XI
-    XH)))) :: ((Npos (XI (XI (XI XH)))) :: [])))))))))))))))))))))))))))))))
-
-(** val avx_lo_lut : n list **)
-
-let avx_lo_lut =
-  (Npos (XO (XO (XO (XO (XO (XO (XO XH)))))))) :: ((Npos (XO (XO (XO (XO (XO
-    (XO XH))))))) :: ((Npos (XO (XO (XO (XO (XO XH)))))) :: ((Npos (XO (XO
-    (XO (XO XH))))) :: ((Npos (XO (XO (XO XH)))) :: ((Npos (XO (XO
-    XH))) :: ((Npos (XO XH)) :: ((Npos XH) :: ((Npos (XO (XO (XO (XO (XO (XO
-    (XO XH)))))))) :: ((Npos (XO (XO (XO (XO (XO (XO XH))))))) :: ((Npos (XO
-    (XO (XO (XO (XO XH)))))) :: ((Npos (XO (XO (XO (XO XH))))) :: ((Npos (XO
-    (XO (XO XH)))) :: ((Npos (XO (XO XH))) :: ((Npos (XO XH)) :: ((Npos
-    XH) :: ((Npos (XO (XO (XO (XO (XO (XO (XO XH)))))))) :: ((Npos (XO (XO
-    (XO (XO (XO (XO XH))))))) :: ((Npos (XO (XO (XO (XO (XO
-    XH)))))) :: ((Npos (XO (XO (XO (XO XH))))) :: ((Npos (XO (XO (XO
-    XH)))) :: ((Npos (XO (XO XH))) :: ((Npos (XO XH)) :: ((Npos XH) :: ((Npos
-    (XO (XO (XO (XO (XO (XO (XO XH)))))))) :: ((Npos (XO (XO (XO (XO (XO (XO
-    XH))))))) :: ((Npos (XO (XO (XO (XO (XO XH)))))) :: ((Npos (XO (XO (XO
-    (XO XH))))) :: ((Npos (XO (XO (XO XH)))) :: ((Npos (XO (XO
-    XH))) :: ((Npos (XO XH)) :: ((Npos
-    XH) :: [])))))))))))))))))))))))))))))))
-
-(** val avx_lut : n list **)
-
-let avx_lut =
-  N0 :: (N0 :: (N0 :: (N0 :: (N0 :: (N0 :: (N0 :: (N0 :: ((Npos (XO
-    XH)) :: (N0 :: (N0 :: ((Npos (XI XH)) :: ((Npos
-    XH) :: (N0 :: (N0 :: (N0 :: (N0 :: (N0 :: (N0 :: (N0 :: (N0 :: (N0 :: (N0 :: (N0 :: ((Npos
-    (XO XH)) :: (N0 :: (N0 :: ((Npos (XI XH)) :: ((Npos
-    XH) :: (N0 :: (N0 :: (N0 :: [])))))))))))))))))))))))))))))))
-
-(** val avx_permute_imm : n **)
-
-let avx_permute_imm =
-  Npos (XO (XI (XO (XO (XI (XI XH))))))
-
-(** val avx_lo_mask : n **)
-
-let avx_lo_mask =
-  Npos (XI (XI (XI XH)))
-
-(** val avx_slli_first : nat **)
-
-let avx_slli_first =
-  S (S (S (S (S (S (S O))))))
-
-(** val avx_slli_second : nat **)
-
-let avx_slli_second =
-  S (S (S (S (S (S O)))))
-
-(** val avx_hi_shift : nat **)
-
-let avx_hi_shift =
-  S (S (S (S (S (S (S (S (S (S (S (S (S (S (S (S (S (S (S (S (S (S (S (S (S
-    (S (S (S (S (S (S (S O)))))))))))))))))))))))))))))))
-
-(** val avx_srli_hi : nat **)
-
-let avx_srli_hi =
-  S (S (S O))
-
-(** val avx_hi_lut_letters : n list **)
-
-let avx_hi_lut_letters =
-  (Npos (XI (XO (XO (XO (XO (XO XH))))))) :: ((Npos (XI (XI (XO (XO (XO (XO
-    XH))))))) :: ((Npos (XI (XI (XI (XO (XO (XO XH))))))) :: ((Npos (XO (XO
-    (XI (XO (XI (XO XH))))))) :: ((Npos (XI (XO (XO (XO (XO (XI
-    XH))))))) :: ((Npos (XI (XI (XO (XO (XO (XI XH))))))) :: ((Npos (XI (XI
-    (XI (XO (XO (XI XH))))))) :: ((Npos (XO (XO (XI (XO (XI (XI
-    XH))))))) :: [])))))))
-
-(** val avx_hi_lut_offset : n **)
-
-let avx_hi_lut_offset =
-  Npos (XO (XO (XO (XO (XO (XO XH))))))
-
-(** val avx_hi_lut_words : n list **)
-
-let avx_hi_lut_words =
-  (Npos XH) :: (N0 :: ((Npos XH) :: (N0 :: [])))
-
-(** val tbl_hashn_arms : n list **)
-
-let tbl_hashn_arms =
-  (Npos (XO (XO XH))) :: ((Npos (XO (XO XH))) :: ((Npos (XO (XO
-    XH))) :: ((Npos (XO (XO XH))) :: ((Npos (XO (XO XH))) :: ((Npos (XO (XO
-    XH))) :: ((Npos (XO (XO XH))) :: ((Npos (XO (XO XH))) :: ((Npos (XO (XO
-    XH))) :: ((Npos (XO (XO XH))) :: ((Npos (XO (XO XH))) :: ((Npos (XO (XO
-    XH))) :: ((Npos (XO (XO XH))) :: ((Npos (XO (XO XH))) :: ((Npos (XO (XO
-    XH))) :: ((Npos (XO (XO XH))) :: ((Npos (XO (XO XH))) :: ((Npos (XO (XO
-    XH))) :: ((Npos (XO (XO XH))) :: ((Npos (XO (XO XH))) :: ((Npos (XO (XO
-    XH))) :: ((Npos (XO (XO XH))) :: ((Npos (XO (XO XH))) :: ((Npos (XO (XO
-    XH))) :: ((Npos (XO (XO XH))) :: ((Npos (XO (XO XH))) :: ((Npos (XO (XO
-    XH))) :: ((Npos (XO (XO XH))) :: ((Npos (XO (XO XH))) :: ((Npos (XO (XO
-    XH))) :: ((Npos (XO (XO XH))) :: ((Npos (XO (XO XH))) :: ((Npos (XO (XO
-    XH))) :: ((Npos (XO (XO XH))) :: ((Npos (XO (XO XH))) :: ((Npos (XO (XO
-    XH))) :: ((Npos (XO (XO XH))) :: ((Npos (XO (XO XH))) :: ((Npos (XO (XO
-    XH))) :: ((Npos (XO (XO XH))) :: ((Npos (XO (XO XH))) :: ((Npos (XO (XO
-    XH))) :: ((Npos (XO (XO XH))) :: ((Npos (XO (XO XH))) :: ((Npos (XO (XO
-    XH))) :: ((Npos (XO (XO XH))) :: ((Npos (XO (XO XH))) :: ((Npos (XO (XO
-    XH))) :: ((Npos (XO (XO XH))) :: ((Npos (XO (XO XH))) :: ((Npos (XO (XO
-    XH))) :: ((Npos (XO (XO XH))) :: ((Npos (XO (XO XH))) :: ((Npos (XO (XO
-    XH))) :: ((Npos (XO (XO XH))) :: ((Npos (XO (XO XH))) :: ((Npos (XO (XO
-    XH))) :: ((Npos (XO (XO XH))) :: ((Npos (XO (XO XH))) :: ((Npos (XO (XO
-    XH))) :: ((Npos (XO (XO XH))) :: ((Npos (XO (XO XH))) :: ((Npos (XO (XO
-    XH))) :: ((Npos (XO (XO XH))) :: ((Npos (XO (XO XH))) :: (N0 :: ((Npos
-    (XO (XO XH))) :: ((Npos XH) :: ((Npos (XO (XO XH))) :: ((Npos (XO (XO
-    XH))) :: ((Npos (XO (XO XH))) :: ((Npos (XO XH)) :: ((Npos (XO (XO
-    XH))) :: ((Npos (XO (XO XH))) :: ((Npos (XO (XO XH))) :: ((Npos (XO (XO
-    XH))) :: ((Npos (XO (XO XH))) :: ((Npos (XO (XO XH))) :: ((Npos (XO (XO
-    XH))) :: ((Npos (XO (XO XH))) :: ((Npos (XO (XO XH))) :: ((Npos (XO (XO
-    XH))) :: ((Npos (XO (XO XH))) :: ((Npos (XO (XO XH))) :: ((Npos (XI
-    XH)) :: ((Npos (XO (XO XH))) :: ((Npos (XO (XO XH))) :: ((Npos (XO (XO
-    XH))) :: ((Npos (XO (XO XH))) :: ((Npos (XO (XO XH))) :: ((Npos (XO (XO
-    XH))) :: ((Npos (XO (XO XH))) :: ((Npos (XO (XO XH))) :: ((Npos (XO (XO
-    XH))) :: ((Npos (XO (XO XH))) :: ((Npos (XO (XO XH))) :: ((Npos (XO (XO
-    XH))) :: (N0 :: ((Npos (XO (XO XH))) :: ((Npos XH) :: ((Npos (XO (XO
-    XH))) :: ((Npos (XO (XO XH))) :: ((Npos (XO (XO XH))) :: ((Npos (XO
-    XH)) :: ((Npos (XO (XO XH))) :: ((Npos (XO (XO XH))) :: ((Npos (XO (XO
-    XH))) :: ((Npos (XO (XO XH))) :: ((Npos (XO (XO XH))) :: ((Npos (XO (XO
-    XH))) :: ((Npos (XO (XO XH))) :: ((Npos (XO (XO XH))) :: ((Npos (XO (XO
-    XH))) :: ((Npos (XO (XO XH))) :: ((Npos (XO (XO XH))) :: ((Npos (XO (XO
-    XH))) :: ((Npos (XI XH)) :: ((Npos (XO (XO XH))) :: ((Npos (XO (XO
-    XH))) :: ((Npos (XO (XO XH))) :: ((Npos (XO (XO XH))) :: ((Npos (XO (XO
-    XH))) :: ((Npos (XO (XO XH))) :: ((Npos (XO (XO XH))) :: ((Npos (XO (XO
-    XH))) :: ((Npos (XO (XO XH))) :: ((Npos (XO (XO XH))) :: ((Npos (XO (XO
-    XH))) :: ((Npos (XO (XO XH))) :: ((Npos (XO (XO XH))) :: ((Npos (XO (XO
-    XH))) :: ((Npos (XO (XO XH))) :: ((Npos (XO (XO XH))) :: ((Npos (XO (XO
-    XH))) :: ((Npos (XO (XO XH))) :: ((Npos (XO (XO XH))) :: ((Npos (XO (XO
-    XH))) :: ((Npos (XO (XO XH))) :: ((Npos (XO (XO XH))) :: ((Npos (XO (XO
-    XH))) :: ((Npos (XO (XO XH))) :: ((Npos (XO (XO XH))) :: ((Npos (XO (XO
-    XH))) :: ((Npos (XO (XO XH))) :: ((Npos (XO (XO XH))) :: ((Npos (XO (XO
-    XH))) :: ((Npos (XO (XO XH))) :: ((Npos (XO (XO XH))) :: ((Npos (XO (XO
-    XH))) :: ((Npos (XO (XO XH))) :: ((Npos (XO (XO XH))) :: ((Npos (XO (XO
-    XH))) :: ((Npos (XO (XO XH))) :: ((Npos (XO (XO XH))) :: ((Npos (XO (XO
-    XH))) :: ((Npos (XO (XO XH))) :: ((Npos (XO (XO XH))) :: ((Npos (XO (XO
-    XH))) :: ((Npos (XO (XO XH))) :: ((Npos (XO (XO XH))) :: ((Npos (XO (XO
-    XH))) :: ((Npos (XO (XO XH))) :: ((Npos (XO (XO XH))) :: ((Npos (XO (XO
-    XH))) :: ((Npos (XO (XO XH))) :: ((Npos (XO (XO XH))) :: ((Npos (XO (XO
-    XH))) :: ((Npos (XO (XO XH))) :: ((Npos (XO (XO XH))) :: ((Npos (XO (XO
-    XH))) :: ((Npos (XO (XO XH))) :: ((Npos (XO (XO XH))) :: ((Npos (XO (XO
-    XH))) :: ((Npos (XO (XO XH))) :: ((Npos (XO (XO XH))) :: ((Npos (XO (XO
-    XH))) :: ((Npos (XO (XO XH))) :: ((Npos (XO (XO XH))) :: ((Npos (XO (XO
-    XH))) :: ((Npos (XO (XO XH))) :: ((Npos (XO (XO XH))) :: ((Npos (XO (XO
-    XH))) :: ((Npos (XO (XO XH))) :: ((Npos (XO (XO XH))) :: ((Npos (XO (XO
-    XH))) :: ((Npos (XO (XO XH))) :: ((Npos (XO (XO XH))) :: ((Npos (XO (XO
-    XH))) :: ((Npos (XO (XO XH))) :: ((Npos (XO (XO XH))) :: ((Npos (XO (XO
-    XH))) :: ((Npos (XO (XO XH))) :: ((Npos (XO (XO XH))) :: ((Npos (XO (XO
-    XH))) :: ((Npos (XO (XO XH))) :: ((Npos (XO (XO XH))) :: ((Npos (XO (XO
-    XH))) :: ((Npos (XO (XO XH))) :: ((Npos (XO (XO XH))) :: ((Npos (XO (XO
-    XH))) :: ((Npos (XO (XO XH))) :: ((Npos (XO (XO XH))) :: ((Npos (XO (XO
-    XH))) :: ((Npos (XO (XO XH))) :: ((Npos (XO (XO XH))) :: ((Npos (XO (XO
-    XH))) :: ((Npos (XO (XO XH))) :: ((Npos (XO (XO XH))) :: ((Npos (XO (XO
-    XH))) :: ((Npos (XO (XO XH))) :: ((Npos (XO (XO XH))) :: ((Npos (XO (XO
-    XH))) :: ((Npos (XO (XO XH))) :: ((Npos (XO (XO XH))) :: ((Npos (XO (XO
-    XH))) :: ((Npos (XO (XO XH))) :: ((Npos (XO (XO XH))) :: ((Npos (XO (XO
-    XH))) :: ((Npos (XO (XO XH))) :: ((Npos (XO (XO XH))) :: ((Npos (XO (XO
-    XH))) :: ((Npos (XO (XO XH))) :: ((Npos (XO (XO XH))) :: ((Npos (XO (XO
-    XH))) :: ((Npos (XO (XO XH))) :: ((Npos (XO (XO XH))) :: ((Npos (XO (XO
-    XH))) :: ((Npos (XO (XO XH))) :: ((Npos (XO (XO XH))) :: ((Npos (XO (XO
-    XH))) :: ((Npos (XO (XO XH))) :: ((Npos (XO (XO XH))) :: ((Npos (XO (XO
-    XH))) :: ((Npos (XO (XO XH))) :: ((Npos (XO (XO XH))) :: ((Npos (XO (XO
-    XH))) :: ((Npos (XO (XO XH))) :: ((Npos (XO (XO XH))) :: ((Npos (XO (XO
-    XH))) :: ((Npos (XO (XO XH))) :: ((Npos (XO (XO XH))) :: ((Npos (XO (XO
-    XH))) :: ((Npos (XO (XO XH))) :: ((Npos (XO (XO XH))) :: ((Npos (XO (XO
-    XH))) :: ((Npos (XO (XO XH))) :: ((Npos (XO (XO XH))) :: ((Npos (XO (XO
-    XH))) :: ((Npos (XO (XO XH))) :: ((Npos (XO (XO XH))) :: ((Npos (XO (XO
-    XH))) :: ((Npos (XO (XO XH))) :: ((Npos (XO (XO XH))) :: ((Npos (XO (XO
-    XH))) :: ((Npos (XO (XO XH))) :: ((Npos (XO (XO
-    XH))) :: [])))))))))))))))))))))))))))))))))))))))))))))))))))))))))))))))))))))))))))))))))))))))))))))))))))))))))))))))))))))))))))))))))))))))))))))))))))))))))))))))))))))))))))))))))))))))))))))))))))))))))))))))))))))))))))))))))))))))))))))))))))))))))))))))
-
-(** val hashn_modulus : n **)
-
-let hashn_modulus =
-  Npos (XO (XO XH))
-
-(** val ascii_fill_mod : nat **)
-
-let ascii_fill_mod =
-  S (S (S (S (S (S (S (S (S (S (S (S (S (S (S (S (S (S (S (S (S (S (S (S (S
-    (S (S (S (S (S (S (S O)))))))))))))))))))))))))))))))
-
-(** val ascii_offset0 : nat **)
-
-let ascii_offset0 =
-  S (S (S (S (S (S (S (S (S (S (S (S (S (S (S (S (S (S (S (S (S (S (S (S (S
-    (S (S (S (S (S (S (S (S (S (S (S (S (S (S (S (S (S (S (S (S (S (S (S (S
-    (S (S (S (S (S (S (S (S (S (S (S (S (S
-    O)))))))))))))))))))))))))))))))))))))))))))))))))))))))))))))
-
-(** val ascii_group : nat **)
-
-let ascii_group =
-  S (S (S (S (S (S (S (S (S (S (S (S (S (S (S (S (S (S (S (S (S (S (S (S (S
-    (S (S (S (S (S (S (S O)))))))))))))))))))))))))))))))
-
-(** val ascii_assert_lt : nat **)
-
-let ascii_assert_lt =
-  S (S (S (S O)))
-
-(** val ascii_offset_step : nat **)
-
-let ascii_offset_step =
-  S (S O)
-
-(** val ascii_chunk : nat **)
-
-let ascii_chunk =
-  S (S (S (S (S (S (S (S (S (S (S (S (S (S (S (S (S (S (S (S (S (S (S (S (S
-    (S (S (S (S (S (S (S O)))))))))))))))))))))))))))))))
-
-(** val ascii_chunk_full : nat **)
-
-let ascii_chunk_full =
-  S (S (S (S (S (S (S (S (S (S (S (S (S (S (S (S (S (S (S (S (S (S (S (S (S
-    (S (S (S (S (S (S (S O)))))))))))))))))))))))))))))))
 
 type kcfg = { kW : nat; kK : nat; kInt : bool }
 
@@ -3288,1126 +2655,6 @@ let rec dedup_by eqb2 = function
   (match dedup_by eqb2 r with
    | [] -> x :: []
    | y :: t -> if eqb2 x y then y :: t else x :: (y :: t))
-
-(** val upper : n -> n **)
-
-let upper c =
-  if (&&) (N.leb (Npos (XI (XO (XO (XO (XO (XI XH))))))) c)
-       (N.leb c (Npos (XO (XI (XO (XI (XI (XI XH))))))))
-  then N.sub c (Npos (XO (XO (XO (XO (XO XH))))))
-  else c
-
-(** val render_char : n -> n **)
-
-let render_char c =
-  if ascii_valid c then upper c else Npos (XI (XO (XO (XO (XO (XO XH))))))
-
-(** val render : n list -> n list **)
-
-let render bytes =
-  map render_char bytes
-
-(** val runs : ('a1 -> bool) -> 'a1 list -> 'a1 list list **)
-
-let rec runs p = function
-| [] -> []
-| x :: r ->
-  if p x
-  then (match r with
-        | [] -> (x :: []) :: []
-        | y :: _ ->
-          if p y
-          then (match runs p r with
-                | [] -> (x :: []) :: []
-                | h :: t -> (x :: h) :: t)
-          else (x :: []) :: (runs p r))
-  else runs p r
-
-(** val acgt_runs : n list -> dna list **)
-
-let acgt_runs text0 =
-  map (map ascii_base) (runs ascii_valid text0)
-
-(** val hashn_ok : n list -> dna -> bool **)
-
-let rec hashn_ok bytes res =
-  match bytes with
-  | [] -> (match res with
-           | [] -> true
-           | _ :: _ -> false)
-  | c :: bs ->
-    (match res with
-     | [] -> false
-     | b :: rs ->
-       (&&)
-         ((&&) (N.ltb b (Npos (XO (XO XH))))
-           (if ascii_valid c then N.eqb b (ascii_base c) else true))
-         (hashn_ok bs rs))
-
-(** val hashn_local : n list -> dna -> n list -> dna -> bool **)
-
-let rec hashn_local bytes1 res1 bytes2 res2 =
-  match bytes1 with
-  | [] -> true
-  | c1 :: b1 ->
-    (match res1 with
-     | [] -> true
-     | r1 :: s1 ->
-       (match bytes2 with
-        | [] -> true
-        | c2 :: b2 ->
-          (match res2 with
-           | [] -> true
-           | r2 :: s2 ->
-             (&&)
-               (if (&&) (negb (ascii_valid c1)) (negb (ascii_valid c2))
-                then N.eqb r1 r2
-                else true) (hashn_local b1 s1 b2 s2))))
-
-type vec = n list
-
-(** val set_epi8 : n list -> vec **)
-
-let set_epi8 =
-  rev
-
-(** val le_bytes0 : nat -> n -> n list **)
-
-let le_bytes0 n0 x =
-  map (fun i ->
-    N.coq_land (N.shiftr x (N.mul (Npos (XO (XO (XO XH)))) (N.of_nat i)))
-      (Npos (XI (XI (XI (XI (XI (XI (XI XH))))))))) (seq O n0)
-
-(** val set_epi64x : n list -> vec **)
-
-let set_epi64x args_as_written =
-  flat_map (le_bytes0 (S (S (S (S (S (S (S (S O))))))))) (rev args_as_written)
-
-(** val set1_epi8 : n -> vec **)
-
-let set1_epi8 b =
-  repeat b (S (S (S (S (S (S (S (S (S (S (S (S (S (S (S (S (S (S (S (S (S (S
-    (S (S (S (S (S (S (S (S (S (S O))))))))))))))))))))))))))))))))
-
-(** val setzero_si256 : vec **)
-
-let setzero_si256 =
-  repeat N0 (S (S (S (S (S (S (S (S (S (S (S (S (S (S (S (S (S (S (S (S (S (S
-    (S (S (S (S (S (S (S (S (S (S O))))))))))))))))))))))))))))))))
-
-(** val loadu_si256 : n list -> vec **)
-
-let loadu_si256 bytes =
-  bytes
-
-(** val shuffle_epi8_gen : 'a1 -> 'a1 list -> vec -> 'a1 list **)
-
-let shuffle_epi8_gen zero a b =
-  map (fun i ->
-    let c = nth i b N0 in
-    if N.testbit c (Npos (XI (XI XH)))
-    then zero
-    else nth
-           (add
-             (mul (S (S (S (S (S (S (S (S (S (S (S (S (S (S (S (S
-               O))))))))))))))))
-               (Nat.div i (S (S (S (S (S (S (S (S (S (S (S (S (S (S (S (S
-                 O))))))))))))))))))
-             (N.to_nat (N.coq_land c (Npos (XI (XI (XI XH))))))) a zero)
-    (seq O (S (S (S (S (S (S (S (S (S (S (S (S (S (S (S (S (S (S (S (S (S (S
-      (S (S (S (S (S (S (S (S (S (S O)))))))))))))))))))))))))))))))))
-
-(** val permute4x64_epi64_gen : 'a1 -> 'a1 list -> n -> 'a1 list **)
-
-let permute4x64_epi64_gen zero a imm =
-  map (fun i ->
-    let sel =
-      N.to_nat
-        (N.coq_land
-          (N.shiftr imm
-            (N.mul (Npos (XO XH))
-              (N.of_nat (Nat.div i (S (S (S (S (S (S (S (S O))))))))))))
-          (Npos (XI XH)))
-    in
-    nth
-      (add (mul (S (S (S (S (S (S (S (S O)))))))) sel)
-        (Nat.modulo i (S (S (S (S (S (S (S (S O)))))))))) a zero)
-    (seq O (S (S (S (S (S (S (S (S (S (S (S (S (S (S (S (S (S (S (S (S (S (S
-      (S (S (S (S (S (S (S (S (S (S O)))))))))))))))))))))))))))))))))
-
-(** val unpack_epi8_gen : 'a1 -> nat -> 'a1 list -> 'a1 list -> 'a1 list **)
-
-let unpack_epi8_gen zero off a b =
-  map (fun i ->
-    let src =
-      add
-        (add
-          (mul (S (S (S (S (S (S (S (S (S (S (S (S (S (S (S (S
-            O))))))))))))))))
-            (Nat.div i (S (S (S (S (S (S (S (S (S (S (S (S (S (S (S (S
-              O)))))))))))))))))) off)
-        (Nat.div
-          (Nat.modulo i (S (S (S (S (S (S (S (S (S (S (S (S (S (S (S (S
-            O))))))))))))))))) (S (S O)))
-    in
-    if Nat.even i then nth src a zero else nth src b zero)
-    (seq O (S (S (S (S (S (S (S (S (S (S (S (S (S (S (S (S (S (S (S (S (S (S
-      (S (S (S (S (S (S (S (S (S (S O)))))))))))))))))))))))))))))))))
-
-(** val shuffle_epi8 : vec -> vec -> vec **)
-
-let shuffle_epi8 =
-  shuffle_epi8_gen N0
-
-(** val permute4x64_epi64 : vec -> n -> vec **)
-
-let permute4x64_epi64 =
-  permute4x64_epi64_gen N0
-
-(** val unpacklo_epi8 : vec -> vec -> vec **)
-
-let unpacklo_epi8 =
-  unpack_epi8_gen N0 O
-
-(** val unpackhi_epi8 : vec -> vec -> vec **)
-
-let unpackhi_epi8 =
-  unpack_epi8_gen N0 (S (S (S (S (S (S (S (S O))))))))
-
-(** val word16 : vec -> nat -> n **)
-
-let word16 a j =
-  N.coq_lor (nth (mul (S (S O)) j) a N0)
-    (N.modulo
-      (N.shiftl (nth (add (mul (S (S O)) j) (S O)) a N0) (Npos (XO (XO (XO
-        XH))))) (N.pow (Npos (XO XH)) (Npos (XO (XO (XO (XO XH)))))))
-
-(** val lo8 : n -> n **)
-
-let lo8 w =
-  N.modulo w (N.pow (Npos (XO XH)) (Npos (XO (XO (XO XH)))))
-
-(** val hi8 : n -> n **)
-
-let hi8 w =
-  N.shiftr w (Npos (XO (XO (XO XH))))
-
-(** val of_words16 : (nat -> n) -> vec **)
-
-let of_words16 f =
-  map (fun i ->
-    if Nat.even i
-    then lo8 (f (Nat.div i (S (S O))))
-    else hi8 (f (Nat.div i (S (S O)))))
-    (seq O (S (S (S (S (S (S (S (S (S (S (S (S (S (S (S (S (S (S (S (S (S (S
-      (S (S (S (S (S (S (S (S (S (S O)))))))))))))))))))))))))))))))))
-
-(** val slli_epi16 : vec -> nat -> vec **)
-
-let slli_epi16 a k =
-  of_words16 (fun j ->
-    if Nat.ltb (S (S (S (S (S (S (S (S (S (S (S (S (S (S (S O))))))))))))))) k
-    then N0
-    else N.modulo (N.shiftl (word16 a j) (N.of_nat k))
-           (N.pow (Npos (XO XH)) (Npos (XO (XO (XO (XO XH)))))))
-
-(** val srli_epi16 : vec -> nat -> vec **)
-
-let srli_epi16 a k =
-  of_words16 (fun j ->
-    if Nat.ltb (S (S (S (S (S (S (S (S (S (S (S (S (S (S (S O))))))))))))))) k
-    then N0
-    else N.shiftr (word16 a j) (N.of_nat k))
-
-(** val map2 : ('a1 -> 'a1 -> 'a1) -> 'a1 list -> 'a1 list -> 'a1 list **)
-
-let map2 f a b =
-  map (fun p -> f (fst p) (snd p)) (combine a b)
-
-(** val and_si256 : vec -> vec -> vec **)
-
-let and_si256 =
-  map2 N.coq_land
-
-(** val andnot_si256 : vec -> vec -> vec **)
-
-let andnot_si256 =
-  map2 (fun x y ->
-    N.coq_land (N.coq_lxor x (Npos (XI (XI (XI (XI (XI (XI (XI XH))))))))) y)
-
-(** val cmpeq_epi8 : vec -> vec -> vec **)
-
-let cmpeq_epi8 =
-  map2 (fun x y ->
-    if N.eqb x y then Npos (XI (XI (XI (XI (XI (XI (XI XH))))))) else N0)
-
-(** val testc_si256 : vec -> vec -> n **)
-
-let testc_si256 a b =
-  if forallb (fun p ->
-       N.eqb
-         (N.coq_land
-           (N.coq_lxor (fst p) (Npos (XI (XI (XI (XI (XI (XI (XI XH)))))))))
-           (snd p)) N0) (combine a b)
-  then Npos XH
-  else N0
-
-(** val movemask_epi8 : vec -> n **)
-
-let movemask_epi8 a =
-  fold_right (fun p acc ->
-    N.coq_lor
-      (N.modulo
-        (N.shiftl (N.shiftr (snd p) (Npos (XI (XI XH)))) (N.of_nat (fst p)))
-        (N.pow (Npos (XO XH)) (Npos (XO (XO (XO (XO (XO XH)))))))) acc) N0
-    (combine
-      (seq O (S (S (S (S (S (S (S (S (S (S (S (S (S (S (S (S (S (S (S (S (S
-        (S (S (S (S (S (S (S (S (S (S (S O))))))))))))))))))))))))))))))))) a)
-
-(** val reverse_mask : vec **)
-
-let reverse_mask =
-  set_epi8 avx_reverse_mask
-
-(** val pack_32_bases : vec -> n **)
-
-let pack_32_bases bases =
-  let reversed = shuffle_epi8 bases reverse_mask in
-  let permuted = permute4x64_epi64 reversed avx_permute_imm in
-  let first_bits = slli_epi16 permuted avx_slli_first in
-  let second_bits = slli_epi16 permuted avx_slli_second in
-  let lo_half = unpacklo_epi8 first_bits second_bits in
-  let hi_half = unpackhi_epi8 first_bits second_bits in
-  let packed_lo = movemask_epi8 lo_half in
-  let packed_hi = movemask_epi8 hi_half in
-  N.coq_lor
-    (N.modulo (N.shiftl packed_hi (N.of_nat avx_hi_shift))
-      (N.pow (Npos (XO XH)) (Npos (XO (XO (XO (XO (XO (XO XH)))))))))
-    packed_lo
-
-(** val lut_hi_word : n **)
-
-let lut_hi_word =
-  fold_left (fun acc ch ->
-    N.coq_lor acc (N.shiftl (Npos XH) (N.sub ch avx_hi_lut_offset)))
-    avx_hi_lut_letters N0
-
-(** val hi_lut : vec **)
-
-let hi_lut =
-  set_epi64x
-    (map (fun w -> if N.eqb w N0 then N0 else lut_hi_word) avx_hi_lut_words)
-
-(** val lo_lut : vec **)
-
-let lo_lut =
-  set_epi8 avx_lo_lut
-
-(** val lo_mask : vec **)
-
-let lo_mask =
-  set1_epi8 avx_lo_mask
-
-(** val lut : vec **)
-
-let lut =
-  set_epi8 avx_lut
-
-(** val convert_bases_vec : vec -> vec * bool **)
-
-let convert_bases_vec input =
-  let hi = and_si256 (srli_epi16 input avx_srli_hi) lo_mask in
-  let hi_lookup = shuffle_epi8 hi_lut hi in
-  let lo_lookup = shuffle_epi8 lo_lut input in
-  let mask0 = cmpeq_epi8 (and_si256 lo_lookup hi_lookup) setzero_si256 in
-  let valid = negb (N.eqb (testc_si256 setzero_si256 mask0) N0) in
-  let shuffled = shuffle_epi8 lut input in
-  let res = andnot_si256 mask0 shuffled in (res, valid)
-
-(** val convert_bases : n list -> (vec * bool) option **)
-
-let convert_bases bytes =
-  if Nat.eqb (length bytes) (S (S (S (S (S (S (S (S (S (S (S (S (S (S (S (S
-       (S (S (S (S (S (S (S (S (S (S (S (S (S (S (S (S
-       O))))))))))))))))))))))))))))))))
-  then Some (convert_bases_vec (loadu_si256 bytes))
-  else None
-
-type dstr = { ds_storage : n list; ds_len : nat }
-
-(** val ds_new : dstr **)
-
-let ds_new =
-  { ds_storage = []; ds_len = O }
-
-(** val obind0 : 'a1 option -> ('a1 -> 'a2 option) -> 'a2 option **)
-
-let obind0 o f =
-  match o with
-  | Some x -> f x
-  | None -> None
-
-(** val omapM : ('a1 -> 'a2 option) -> 'a1 list -> 'a2 list option **)
-
-let rec omapM f = function
-| [] -> Some []
-| x :: r ->
-  obind0 (f x) (fun y -> obind0 (omapM f r) (fun t -> Some (y :: t)))
-
-(** val base_to_bits : n -> n **)
-
-let base_to_bits c =
-  nth (N.to_nat c) tbl_base_to_bits N0
-
-(** val dna_only_base_to_bits : n -> n option **)
-
-let dna_only_base_to_bits c =
-  let v = nth (N.to_nat c) tbl_dna_only_base_to_bits (Npos (XO (XO XH))) in
-  if N.ltb v (Npos (XO (XO XH))) then Some v else None
-
-(** val bits_to_ascii : n -> n **)
-
-let bits_to_ascii b =
-  nth (N.to_nat b) tbl_bits_to_ascii (Npos (XO (XO (XO (XI (XI (XO XH)))))))
-
-(** val bits_to_base_ch : n -> n **)
-
-let bits_to_base_ch b =
-  nth (N.to_nat b) tbl_bits_to_base (Npos (XO (XO (XO (XI (XI (XO XH)))))))
-
-(** val chunks_fuel : nat -> nat -> 'a1 list -> 'a1 list list **)
-
-let rec chunks_fuel fuel n0 l =
-  match fuel with
-  | O -> []
-  | S f ->
-    (match l with
-     | [] -> []
-     | _ :: _ -> (firstn n0 l) :: (chunks_fuel f n0 (skipn n0 l)))
-
-(** val chunks : nat -> 'a1 list -> 'a1 list list **)
-
-let chunks n0 l =
-  chunks_fuel (length l) n0 l
-
-(** val ds_addr : nat -> nat * nat **)
-
-let ds_addr i =
-  ((Nat.div (mul i (S (S O))) (S (S (S (S (S (S (S (S (S (S (S (S (S (S (S (S
-     (S (S (S (S (S (S (S (S (S (S (S (S (S (S (S (S (S (S (S (S (S (S (S (S
-     (S (S (S (S (S (S (S (S (S (S (S (S (S (S (S (S (S (S (S (S (S (S (S (S
-     O))))))))))))))))))))))))))))))))))))))))))))))))))))))))))))))))),
-    (Nat.modulo (mul i (S (S O))) (S (S (S (S (S (S (S (S (S (S (S (S (S (S
-      (S (S (S (S (S (S (S (S (S (S (S (S (S (S (S (S (S (S (S (S (S (S (S (S
-      (S (S (S (S (S (S (S (S (S (S (S (S (S (S (S (S (S (S (S (S (S (S (S (S
-      (S (S O))))))))))))))))))))))))))))))))))))))))))))))))))))))))))))))))))
-
-(** val ds_get : dstr -> nat -> n option **)
-
-let ds_get d i =
-  let (block, bit) = ds_addr i in
-  if Nat.ltb block (length d.ds_storage)
-  then Some
-         (N.coq_land
-           (N.shiftr (nth block d.ds_storage N0)
-             (N.of_nat
-               (sub (S (S (S (S (S (S (S (S (S (S (S (S (S (S (S (S (S (S (S
-                 (S (S (S (S (S (S (S (S (S (S (S (S (S (S (S (S (S (S (S (S
-                 (S (S (S (S (S (S (S (S (S (S (S (S (S (S (S (S (S (S (S (S
-                 (S (S (S
-                 O))))))))))))))))))))))))))))))))))))))))))))))))))))))))))))))
-                 bit))) (Npos (XI XH)))
-  else None
-
-(** val set_by_addr : n list -> nat -> nat -> n -> n list option **)
-
-let set_by_addr st block bit value =
-  if Nat.ltb block (length st)
-  then let sh =
-         N.of_nat
-           (sub (S (S (S (S (S (S (S (S (S (S (S (S (S (S (S (S (S (S (S (S
-             (S (S (S (S (S (S (S (S (S (S (S (S (S (S (S (S (S (S (S (S (S
-             (S (S (S (S (S (S (S (S (S (S (S (S (S (S (S (S (S (S (S (S (S
-             O))))))))))))))))))))))))))))))))))))))))))))))))))))))))))))))
-             bit)
-       in
-       let mask0 =
-         N.modulo (N.shiftl (Npos (XI XH)) sh)
-           (N.pow (Npos (XO XH)) (Npos (XO (XO (XO (XO (XO (XO XH))))))))
-       in
-       let s = nth block st N0 in
-       let s0 = N.coq_lor s mask0 in
-       let s1 = N.coq_lxor s0 mask0 in
-       let s2 =
-         N.coq_lor s1
-           (N.modulo (N.shiftl (N.coq_land value (Npos (XI XH))) sh)
-             (N.pow (Npos (XO XH)) (Npos (XO (XO (XO (XO (XO (XO XH)))))))))
-       in
-       Some (upd block st s2)
-  else None
-
-(** val ds_push : dstr -> n -> dstr option **)
-
-let ds_push d value =
-  let (block, bit) = ds_addr d.ds_len in
-  let st = d.ds_storage in
-  let st0 =
-    if (&&) (Nat.eqb bit O) (Nat.leb (length st) block)
-    then app st (N0 :: [])
-    else st
-  in
-  obind0 (set_by_addr st0 block bit value) (fun st' -> Some { ds_storage =
-    st'; ds_len = (S d.ds_len) })
-
-(** val extend_fill : dstr -> n list -> (dstr * n list) option **)
-
-let rec extend_fill d bytes = match bytes with
-| [] -> Some (d, [])
-| b :: r ->
-  if Nat.eqb (Nat.modulo d.ds_len ascii_fill_mod) O
-  then Some (d, bytes)
-  else obind0 (ds_push d b) (fun d' -> extend_fill d' r)
-
-(** val pack_group : n list -> n option **)
-
-let pack_group g =
-  fold_left (fun acc p ->
-    obind0 acc (fun val1 ->
-      if N.ltb (snd p) (N.of_nat ascii_assert_lt)
-      then Some
-             (N.coq_lor val1
-               (N.shiftl (snd p)
-                 (N.of_nat
-                   (sub ascii_offset0 (mul ascii_offset_step (fst p))))))
-      else None)) (combine (seq O (length g)) g) (Some N0)
-
-(** val extend_groups : dstr -> n list -> dstr option **)
-
-let extend_groups d bytes =
-  fold_left (fun acc g ->
-    obind0 acc (fun d0 ->
-      obind0 (pack_group g) (fun val1 -> Some { ds_storage =
-        (app d0.ds_storage (val1 :: [])); ds_len =
-        (add d0.ds_len (length g)) }))) (chunks ascii_group bytes) (Some d)
-
-(** val ds_extend : dstr -> n list -> dstr option **)
-
-let ds_extend d bytes =
-  obind0 (extend_fill d bytes) (fun p -> extend_groups (fst p) (snd p))
-
-(** val from_acgt_bytes_avx2 : n list -> dstr option **)
-
-let from_acgt_bytes_avx2 bytes =
-  obind0
-    (fold_left (fun acc chunk ->
-      obind0 acc (fun d ->
-        if Nat.eqb (length chunk) ascii_chunk_full
-        then obind0 (convert_bases chunk) (fun cv -> Some { ds_storage =
-               (app d.ds_storage ((pack_32_bases (fst cv)) :: [])); ds_len =
-               d.ds_len })
-        else ds_extend d (map base_to_bits chunk)))
-      (chunks ascii_chunk bytes) (Some ds_new)) (fun d -> Some { ds_storage =
-    d.ds_storage; ds_len = (length bytes) })
-
-(** val from_acgt_bytes_scalar : n list -> dstr option **)
-
-let from_acgt_bytes_scalar bytes =
-  ds_extend ds_new (map base_to_bits bytes)
-
-(** val char_as_u8 : n -> n **)
-
-let char_as_u8 c =
-  N.modulo c (Npos (XO (XO (XO (XO (XO (XO (XO (XO XH)))))))))
-
-(** val from_dna_string : n list -> dstr option **)
-
-let from_dna_string text0 =
-  ds_extend ds_new (map (fun c -> base_to_bits (char_as_u8 c)) text0)
-
-(** val only_gen : (n -> n option) -> n list -> dstr list option **)
-
-let only_gen classify text0 =
-  obind0
-    (fold_left (fun acc c ->
-      obind0 acc (fun st ->
-        let (vector, cur) = st in
-        (match classify c with
-         | Some bit ->
-           obind0 (ds_push cur bit) (fun cur' -> Some (vector, cur'))
-         | None ->
-           if Nat.eqb cur.ds_len O
-           then Some (vector, cur)
-           else Some ((app vector (cur :: [])), ds_new)))) text0 (Some ([],
-      ds_new))) (fun st ->
-    let (vector, cur) = st in
-    Some (if Nat.eqb cur.ds_len O then vector else app vector (cur :: [])))
-
-(** val classify_char : n -> n option **)
-
-let classify_char c =
-  if N.ltb c (Npos (XO (XO (XO (XO (XO (XO (XO XH))))))))
-  then dna_only_base_to_bits (char_as_u8 c)
-  else None
-
-(** val from_dna_only_string : n list -> dstr list option **)
-
-let from_dna_only_string text0 =
-  only_gen classify_char text0
-
-(** val classify_char_old : n -> n option **)
-
-let classify_char_old c =
-  dna_only_base_to_bits (char_as_u8 c)
-
-(** val from_dna_only_string_old : n list -> dstr list option **)
-
-let from_dna_only_string_old text0 =
-  only_gen classify_char_old text0
-
-(** val hashn_base : (n list -> nat -> n) -> n list -> nat -> n -> n **)
-
-let hashn_base h name pos c =
-  let v = nth (N.to_nat c) tbl_hashn_arms (Npos (XO (XO XH))) in
-  if N.ltb v (Npos (XO (XO XH)))
-  then v
-  else N.modulo (N.modulo (h name pos) hashn_modulus) (Npos (XO (XO (XO (XO
-         (XO (XO (XO (XO XH)))))))))
-
-(** val from_acgt_bytes_hashn :
-    (n list -> nat -> n) -> n list -> n list -> dstr option **)
-
-let from_acgt_bytes_hashn h bytes name =
-  fold_left (fun acc p ->
-    obind0 acc (fun d -> ds_push d (hashn_base h name (fst p) (snd p))))
-    (combine (seq O (length bytes)) bytes) (Some ds_new)
-
-(** val ds_to_bytes : dstr -> n list option **)
-
-let ds_to_bytes d =
-  omapM (ds_get d) (seq O d.ds_len)
-
-(** val to_ascii_vec : dstr -> n list option **)
-
-let to_ascii_vec d =
-  obind0 (ds_to_bytes d) (fun l -> Some (map bits_to_ascii l))
-
-(** val ds_to_string : dstr -> n list option **)
-
-let ds_to_string d =
-  obind0 (ds_to_bytes d) (fun l -> Some (map bits_to_base_ch l))
-
-(** val pack_be : n list -> n **)
-
-let pack_be g =
-  N.mul (rank g)
-    (N.pow (Npos (XO (XO XH)))
-      (N.of_nat
-        (sub (S (S (S (S (S (S (S (S (S (S (S (S (S (S (S (S (S (S (S (S (S
-          (S (S (S (S (S (S (S (S (S (S (S O))))))))))))))))))))))))))))))))
-          (length g))))
-
-(** val ds_of_dna : n list -> dstr **)
-
-let ds_of_dna l =
-  { ds_storage =
-    (map pack_be
-      (chunks (S (S (S (S (S (S (S (S (S (S (S (S (S (S (S (S (S (S (S (S (S
-        (S (S (S (S (S (S (S (S (S (S (S O)))))))))))))))))))))))))))))))) l));
-    ds_len = (length l) }
-
-(** val ds_inv : dstr -> bool **)
-
-let ds_inv d =
-  (&&)
-    ((&&)
-      (Nat.eqb (length d.ds_storage)
-        (Nat.div
-          (add d.ds_len (S (S (S (S (S (S (S (S (S (S (S (S (S (S (S (S (S (S
-            (S (S (S (S (S (S (S (S (S (S (S (S (S
-            O)))))))))))))))))))))))))))))))) (S (S (S (S (S (S (S (S (S (S
-          (S (S (S (S (S (S (S (S (S (S (S (S (S (S (S (S (S (S (S (S (S (S
-          O))))))))))))))))))))))))))))))))))
-      (forallb (fun x ->
-        N.ltb x (N.pow (Npos (XO XH)) (Npos (XO (XO (XO (XO (XO (XO XH)))))))))
-        d.ds_storage))
-    (if Nat.eqb
-          (Nat.modulo d.ds_len (S (S (S (S (S (S (S (S (S (S (S (S (S (S (S
-            (S (S (S (S (S (S (S (S (S (S (S (S (S (S (S (S (S
-            O))))))))))))))))))))))))))))))))) O
-     then true
-     else N.eqb
-            (N.coq_land (last d.ds_storage N0)
-              (N.sub
-                (N.pow (Npos (XO XH))
-                  (N.of_nat
-                    (sub (S (S (S (S (S (S (S (S (S (S (S (S (S (S (S (S (S
-                      (S (S (S (S (S (S (S (S (S (S (S (S (S (S (S (S (S (S
-                      (S (S (S (S (S (S (S (S (S (S (S (S (S (S (S (S (S (S
-                      (S (S (S (S (S (S (S (S (S (S (S
-                      O))))))))))))))))))))))))))))))))))))))))))))))))))))))))))))))))
-                      (mul (S (S O))
-                        (Nat.modulo d.ds_len (S (S (S (S (S (S (S (S (S (S (S
-                          (S (S (S (S (S (S (S (S (S (S (S (S (S (S (S (S (S
-                          (S (S (S (S O)))))))))))))))))))))))))))))))))))))
-                (Npos XH))) N0)
-
-type ahandler = val0 list -> val0 option
-
-(** val alookup : string -> (string * ahandler) list -> ahandler option **)
-
-let rec alookup op = function
-| [] -> None
-| p :: r -> let (n0, h) = p in if eqb1 op n0 then Some h else alookup op r
-
-(** val of_ds : dstr -> val0 **)
-
-let of_ds d =
-  VL ((ofNs d.ds_storage) :: ((ofnat d.ds_len) :: []))
-
-(** val v_ds : val0 -> dstr option **)
-
-let v_ds = function
-| VL l ->
-  (match l with
-   | [] -> None
-   | v0 :: l0 ->
-     (match v0 with
-      | VL st ->
-        (match l0 with
-         | [] -> None
-         | v1 :: l1 ->
-           (match v1 with
-            | VN n0 ->
-              (match l1 with
-               | [] ->
-                 (match vlistN st with
-                  | Some s -> Some { ds_storage = s; ds_len = (N.to_nat n0) }
-                  | None -> None)
-               | _ :: _ -> None)
-            | _ -> None))
-      | _ -> None))
-| _ -> None
-
-(** val with_bytes : (n list -> val0) -> ahandler **)
-
-let with_bytes f = function
-| [] -> None
-| v :: l0 ->
-  (match v with
-   | VL l ->
-     (match l0 with
-      | [] -> (match vlistN l with
-               | Some bs -> Some (f bs)
-               | None -> None)
-      | _ :: _ -> None)
-   | _ -> None)
-
-(** val ascii_ops : (string * ahandler) list **)
-
-let ascii_ops =
-  ((String ((Ascii (true, false, false, false, false, true, true, false)),
-    (String ((Ascii (false, true, true, true, false, true, false, false)),
-    (String ((Ascii (true, false, false, false, false, true, true, false)),
-    (String ((Ascii (false, true, true, false, true, true, true, false)),
-    (String ((Ascii (false, false, false, true, true, true, true, false)),
-    EmptyString)))))))))),
-    (with_bytes (fun bs -> ofopt of_ds (from_acgt_bytes_avx2 bs)))) :: (((String
-    ((Ascii (true, false, false, false, false, true, true, false)), (String
-    ((Ascii (false, true, true, true, false, true, false, false)), (String
-    ((Ascii (true, true, false, false, true, true, true, false)), (String
-    ((Ascii (true, true, false, false, false, true, true, false)), (String
-    ((Ascii (true, false, false, false, false, true, true, false)), (String
-    ((Ascii (false, false, true, true, false, true, true, false)), (String
-    ((Ascii (true, false, false, false, false, true, true, false)), (String
-    ((Ascii (false, true, false, false, true, true, true, false)),
-    EmptyString)))))))))))))))),
-    (with_bytes (fun bs -> ofopt of_ds (from_acgt_bytes_scalar bs)))) :: (((String
-    ((Ascii (true, false, false, false, false, true, true, false)), (String
-    ((Ascii (false, true, true, true, false, true, false, false)), (String
-    ((Ascii (true, true, false, false, true, true, true, false)), (String
-    ((Ascii (false, false, true, false, true, true, true, false)), (String
-    ((Ascii (false, true, false, false, true, true, true, false)),
-    EmptyString)))))))))),
-    (with_bytes (fun cs -> ofopt of_ds (from_dna_string cs)))) :: (((String
-    ((Ascii (true, false, false, false, false, true, true, false)), (String
-    ((Ascii (false, true, true, true, false, true, false, false)), (String
-    ((Ascii (true, true, true, true, false, true, true, false)), (String
-    ((Ascii (false, true, true, true, false, true, true, false)), (String
-    ((Ascii (false, false, true, true, false, true, true, false)), (String
-    ((Ascii (true, false, false, true, true, true, true, false)),
-    EmptyString)))))))))))),
-    (with_bytes (fun cs ->
-      ofopt (fun l -> VL (map of_ds l)) (from_dna_only_string cs)))) :: (((String
-    ((Ascii (true, false, false, false, false, true, true, false)), (String
-    ((Ascii (false, true, true, true, false, true, false, false)), (String
-    ((Ascii (true, true, true, true, false, true, true, false)), (String
-    ((Ascii (false, true, true, true, false, true, true, false)), (String
-    ((Ascii (false, false, true, true, false, true, true, false)), (String
-    ((Ascii (true, false, false, true, true, true, true, false)), (String
-    ((Ascii (true, true, true, true, true, false, true, false)), (String
-    ((Ascii (true, false, true, false, true, true, true, false)),
-    EmptyString)))))))))))))))),
-    (with_bytes (fun cs ->
-      ofopt (fun l -> VL (map of_ds l)) (from_dna_only_string cs)))) :: (((String
-    ((Ascii (true, false, false, false, false, true, true, false)), (String
-    ((Ascii (false, true, true, true, false, true, false, false)), (String
-    ((Ascii (true, true, true, true, false, true, true, false)), (String
-    ((Ascii (false, true, true, true, false, true, true, false)), (String
-    ((Ascii (false, false, true, true, false, true, true, false)), (String
-    ((Ascii (true, false, false, true, true, true, true, false)), (String
-    ((Ascii (true, true, true, true, true, false, true, false)), (String
-    ((Ascii (true, true, true, true, false, true, true, false)), (String
-    ((Ascii (false, false, true, true, false, true, true, false)), (String
-    ((Ascii (false, false, true, false, false, true, true, false)),
-    EmptyString)))))))))))))))))))),
-    (with_bytes (fun cs ->
-      ofopt (fun l -> VL (map of_ds l)) (from_dna_only_string_old cs)))) :: (((String
-    ((Ascii (true, false, false, false, false, true, true, false)), (String
-    ((Ascii (false, true, true, true, false, true, false, false)), (String
-    ((Ascii (false, false, false, true, false, true, true, false)), (String
-    ((Ascii (true, false, false, false, false, true, true, false)), (String
-    ((Ascii (true, true, false, false, true, true, true, false)), (String
-    ((Ascii (false, false, false, true, false, true, true, false)), (String
-    ((Ascii (false, true, true, true, false, true, true, false)),
-    EmptyString)))))))))))))), (fun a ->
-    match a with
-    | [] -> None
-    | y :: l0 ->
-      (match y with
-       | VL l ->
-         (match l0 with
-          | [] -> None
-          | v :: l1 ->
-            (match v with
-             | VL nm ->
-               (match l1 with
-                | [] -> None
-                | v0 :: l2 ->
-                  (match v0 with
-                   | VL hs ->
-                     (match l2 with
-                      | [] ->
-                        (match vlistN l with
-                         | Some bs ->
-                           (match vlistN nm with
-                            | Some name ->
-                              (match vlistN hs with
-                               | Some hv ->
-                                 Some
-                                   (ofopt of_ds
-                                     (from_acgt_bytes_hashn (fun _ pos ->
-                                       nth pos hv N0) bs name))
-                               | None -> None)
-                            | None -> None)
-                         | None -> None)
-                      | _ :: _ -> None)
-                   | _ -> None))
-             | _ -> None))
-       | _ -> None))) :: (((String ((Ascii (true, false, false, false, false,
-    true, true, false)), (String ((Ascii (false, true, true, true, false,
-    true, false, false)), (String ((Ascii (false, false, true, false, true,
-    true, true, false)), (String ((Ascii (true, true, true, true, false,
-    true, true, false)), (String ((Ascii (true, true, true, true, true,
-    false, true, false)), (String ((Ascii (true, false, false, false, false,
-    true, true, false)), (String ((Ascii (true, true, false, false, true,
-    true, true, false)), (String ((Ascii (true, true, false, false, false,
-    true, true, false)), (String ((Ascii (true, false, false, true, false,
-    true, true, false)), (String ((Ascii (true, false, false, true, false,
-    true, true, false)), EmptyString)))))))))))))))))))), (fun a ->
-    match a with
-    | [] -> None
-    | d :: l ->
-      (match l with
-       | [] ->
-         (match v_ds d with
-          | Some x -> Some (ofopt ofNs (to_ascii_vec x))
-          | None -> None)
-       | _ :: _ -> None))) :: (((String ((Ascii (true, false, false, false,
-    false, true, true, false)), (String ((Ascii (false, true, true, true,
-    false, true, false, false)), (String ((Ascii (false, false, true, false,
-    true, true, true, false)), (String ((Ascii (true, true, true, true,
-    false, true, true, false)), (String ((Ascii (true, true, true, true,
-    true, false, true, false)), (String ((Ascii (true, true, false, false,
-    true, true, true, false)), (String ((Ascii (false, false, true, false,
-    true, true, true, false)), (String ((Ascii (false, true, false, false,
-    true, true, true, false)), (String ((Ascii (true, false, false, true,
-    false, true, true, false)), (String ((Ascii (false, true, true, true,
-    false, true, true, false)), (String ((Ascii (true, true, true, false,
-    false, true, true, false)), EmptyString)))))))))))))))))))))), (fun a ->
-    match a with
-    | [] -> None
-    | d :: l ->
-      (match l with
-       | [] ->
-         (match v_ds d with
-          | Some x -> Some (ofopt ofNs (ds_to_string x))
-          | None -> None)
-       | _ :: _ -> None))) :: (((String ((Ascii (true, false, false, false,
-    false, true, true, false)), (String ((Ascii (false, true, true, true,
-    false, true, false, false)), (String ((Ascii (false, false, true, false,
-    true, true, true, false)), (String ((Ascii (true, true, true, true,
-    false, true, true, false)), (String ((Ascii (true, true, true, true,
-    true, false, true, false)), (String ((Ascii (false, true, false, false,
-    false, true, true, false)), (String ((Ascii (true, false, false, true,
-    true, true, true, false)), (String ((Ascii (false, false, true, false,
-    true, true, true, false)), (String ((Ascii (true, false, true, false,
-    false, true, true, false)), (String ((Ascii (true, true, false, false,
-    true, true, true, false)), EmptyString)))))))))))))))))))), (fun a ->
-    match a with
-    | [] -> None
-    | d :: l ->
-      (match l with
-       | [] ->
-         (match v_ds d with
-          | Some x -> Some (ofopt ofNs (ds_to_bytes x))
-          | None -> None)
-       | _ :: _ -> None))) :: (((String ((Ascii (true, false, false, false,
-    false, true, true, false)), (String ((Ascii (false, true, true, true,
-    false, true, false, false)), (String ((Ascii (true, true, false, false,
-    false, true, true, false)), (String ((Ascii (true, true, true, true,
-    false, true, true, false)), (String ((Ascii (false, true, true, true,
-    false, true, true, false)), (String ((Ascii (false, true, true, false,
-    true, true, true, false)), (String ((Ascii (true, false, true, false,
-    false, true, true, false)), (String ((Ascii (false, true, false, false,
-    true, true, true, false)), (String ((Ascii (false, false, true, false,
-    true, true, true, false)), EmptyString)))))))))))))))))),
-    (with_bytes (fun bs ->
-      ofopt (fun p -> VL ((ofNs (fst p)) :: ((ofbool (snd p)) :: [])))
-        (convert_bases bs)))) :: (((String ((Ascii (true, false, false,
-    false, false, true, true, false)), (String ((Ascii (false, true, true,
-    true, false, true, false, false)), (String ((Ascii (false, false, false,
-    false, true, true, true, false)), (String ((Ascii (true, false, false,
-    false, false, true, true, false)), (String ((Ascii (true, true, false,
-    false, false, true, true, false)), (String ((Ascii (true, true, false,
-    true, false, true, true, false)), EmptyString)))))))))))),
-    (with_bytes (fun bs -> VN (pack_32_bases bs)))) :: (((String ((Ascii
-    (true, true, false, false, true, true, true, false)), (String ((Ascii
-    (false, true, true, true, false, true, false, false)), (String ((Ascii
-    (true, false, false, false, false, true, true, false)), (String ((Ascii
-    (false, true, true, true, false, true, false, false)), (String ((Ascii
-    (false, true, false, false, false, true, true, false)), (String ((Ascii
-    (true, false, false, false, false, true, true, false)), (String ((Ascii
-    (true, true, false, false, true, true, true, false)), (String ((Ascii
-    (true, false, true, false, false, true, true, false)), (String ((Ascii
-    (true, true, false, false, true, true, true, false)),
-    EmptyString)))))))))))))))))),
-    (with_bytes (fun bs -> ofNs (map ascii_base bs)))) :: (((String ((Ascii
-    (true, true, false, false, true, true, true, false)), (String ((Ascii
-    (false, true, true, true, false, true, false, false)), (String ((Ascii
-    (true, false, false, false, false, true, true, false)), (String ((Ascii
-    (false, true, true, true, false, true, false, false)), (String ((Ascii
-    (true, true, false, false, true, true, true, false)), (String ((Ascii
-    (false, false, true, false, true, true, true, false)), (String ((Ascii
-    (false, true, false, false, true, true, true, false)),
-    EmptyString)))))))))))))),
-    (with_bytes (fun bs -> ofNs (map ascii_base bs)))) :: (((String ((Ascii
-    (true, true, false, false, true, true, true, false)), (String ((Ascii
-    (false, true, true, true, false, true, false, false)), (String ((Ascii
-    (true, false, false, false, false, true, true, false)), (String ((Ascii
-    (false, true, true, true, false, true, false, false)), (String ((Ascii
-    (false, false, false, false, true, true, true, false)), (String ((Ascii
-    (true, false, false, false, false, true, true, false)), (String ((Ascii
-    (true, true, false, false, false, true, true, false)), (String ((Ascii
-    (true, true, false, true, false, true, true, false)), (String ((Ascii
-    (true, false, true, false, false, true, true, false)), (String ((Ascii
-    (false, false, true, false, false, true, true, false)),
-    EmptyString)))))))))))))))))))),
-    (with_bytes (fun bs -> of_ds (ds_of_dna (map ascii_base bs))))) :: (((String
-    ((Ascii (true, true, false, false, true, true, true, false)), (String
-    ((Ascii (false, true, true, true, false, true, false, false)), (String
-    ((Ascii (true, false, false, false, false, true, true, false)), (String
-    ((Ascii (false, true, true, true, false, true, false, false)), (String
-    ((Ascii (false, true, false, false, true, true, true, false)), (String
-    ((Ascii (true, false, true, false, false, true, true, false)), (String
-    ((Ascii (false, true, true, true, false, true, true, false)), (String
-    ((Ascii (false, false, true, false, false, true, true, false)), (String
-    ((Ascii (true, false, true, false, false, true, true, false)), (String
-    ((Ascii (false, true, false, false, true, true, true, false)),
-    EmptyString)))))))))))))))))))),
-    (with_bytes (fun bs -> ofNs (render bs)))) :: (((String ((Ascii (true,
-    true, false, false, true, true, true, false)), (String ((Ascii (false,
-    true, true, true, false, true, false, false)), (String ((Ascii (true,
-    false, false, false, false, true, true, false)), (String ((Ascii (false,
-    true, true, true, false, true, false, false)), (String ((Ascii (false,
-    true, false, false, true, true, true, false)), (String ((Ascii (true,
-    false, true, false, true, true, true, false)), (String ((Ascii (false,
-    true, true, true, false, true, true, false)), (String ((Ascii (true,
-    true, false, false, true, true, true, false)),
-    EmptyString)))))))))))))))),
-    (with_bytes (fun cs -> VL (map ofNs (acgt_runs cs))))) :: (((String
-    ((Ascii (true, true, false, false, true, true, true, false)), (String
-    ((Ascii (false, true, true, true, false, true, false, false)), (String
-    ((Ascii (true, false, false, false, false, true, true, false)), (String
-    ((Ascii (false, true, true, true, false, true, false, false)), (String
-    ((Ascii (false, true, false, false, true, true, true, false)), (String
-    ((Ascii (true, false, true, false, true, true, true, false)), (String
-    ((Ascii (false, true, true, true, false, true, true, false)), (String
-    ((Ascii (true, true, false, false, true, true, true, false)), (String
-    ((Ascii (true, true, true, true, true, false, true, false)), (String
-    ((Ascii (true, false, true, false, true, true, true, false)),
-    EmptyString)))))))))))))))))))),
-    (with_bytes (fun cs -> VL (map ofNs (acgt_runs cs))))) :: (((String
-    ((Ascii (true, true, false, false, false, true, true, false)), (String
-    ((Ascii (false, false, false, true, false, true, true, false)), (String
-    ((Ascii (true, true, false, true, false, true, true, false)), (String
-    ((Ascii (false, true, true, true, false, true, false, false)), (String
-    ((Ascii (true, false, false, false, false, true, true, false)), (String
-    ((Ascii (false, true, true, true, false, true, false, false)), (String
-    ((Ascii (false, false, false, true, false, true, true, false)), (String
-    ((Ascii (true, false, false, false, false, true, true, false)), (String
-    ((Ascii (true, true, false, false, true, true, true, false)), (String
-    ((Ascii (false, false, false, true, false, true, true, false)), (String
-    ((Ascii (false, true, true, true, false, true, true, false)),
-    EmptyString)))))))))))))))))))))), (fun a ->
-    match a with
-    | [] -> None
-    | y :: l0 ->
-      (match y with
-       | VL l ->
-         (match l0 with
-          | [] -> None
-          | v :: l1 ->
-            (match v with
-             | VL r ->
-               (match l1 with
-                | [] ->
-                  (match vlistN l with
-                   | Some bs ->
-                     (match vlistN r with
-                      | Some res -> Some (ofbool (hashn_ok bs res))
-                      | None -> None)
-                   | None -> None)
-                | _ :: _ -> None)
-             | _ -> None))
-       | _ -> None))) :: (((String ((Ascii (true, true, false, false, false,
-    true, true, false)), (String ((Ascii (false, false, false, true, false,
-    true, true, false)), (String ((Ascii (true, true, false, true, false,
-    true, true, false)), (String ((Ascii (false, true, true, true, false,
-    true, false, false)), (String ((Ascii (true, false, false, false, false,
-    true, true, false)), (String ((Ascii (false, true, true, true, false,
-    true, false, false)), (String ((Ascii (false, false, false, true, false,
-    true, true, false)), (String ((Ascii (true, false, false, false, false,
-    true, true, false)), (String ((Ascii (true, true, false, false, true,
-    true, true, false)), (String ((Ascii (false, false, false, true, false,
-    true, true, false)), (String ((Ascii (false, true, true, true, false,
-    true, true, false)), (String ((Ascii (true, true, true, true, true,
-    false, true, false)), (String ((Ascii (false, false, true, true, false,
-    true, true, false)), (String ((Ascii (true, true, true, true, false,
-    true, true, false)), (String ((Ascii (true, true, false, false, false,
-    true, true, false)), (String ((Ascii (true, false, false, false, false,
-    true, true, false)), (String ((Ascii (false, false, true, true, false,
-    true, true, false)), EmptyString)))))))))))))))))))))))))))))))))),
-    (fun a ->
-    match a with
-    | [] -> None
-    | y :: l ->
-      (match y with
-       | VL l1 ->
-         (match l with
-          | [] -> None
-          | v :: l0 ->
-            (match v with
-             | VL r1 ->
-               (match l0 with
-                | [] -> None
-                | v0 :: l3 ->
-                  (match v0 with
-                   | VL l2 ->
-                     (match l3 with
-                      | [] -> None
-                      | v1 :: l4 ->
-                        (match v1 with
-                         | VL r2 ->
-                           (match l4 with
-                            | [] ->
-                              (match vlistN l1 with
-                               | Some b1 ->
-                                 (match vlistN r1 with
-                                  | Some s1 ->
-                                    (match vlistN l2 with
-                                     | Some b2 ->
-                                       (match vlistN r2 with
-                                        | Some s2 ->
-                                          Some
-                                            (ofbool (hashn_local b1 s1 b2 s2))
-                                        | None -> None)
-                                     | None -> None)
-                                  | None -> None)
-                               | None -> None)
-                            | _ :: _ -> None)
-                         | _ -> None))
-                   | _ -> None))
-             | _ -> None))
-       | _ -> None))) :: (((String ((Ascii (true, true, false, false, false,
-    true, true, false)), (String ((Ascii (false, false, false, true, false,
-    true, true, false)), (String ((Ascii (true, true, false, true, false,
-    true, true, false)), (String ((Ascii (false, true, true, true, false,
-    true, false, false)), (String ((Ascii (true, false, false, false, false,
-    true, true, false)), (String ((Ascii (false, true, true, true, false,
-    true, false, false)), (String ((Ascii (true, true, false, false, true,
-    true, true, false)), (String ((Ascii (true, false, false, false, false,
-    true, true, false)), (String ((Ascii (true, false, true, true, false,
-    true, true, false)), (String ((Ascii (true, false, true, false, false,
-    true, true, false)), EmptyString)))))))))))))))))))), (fun a ->
-    match a with
-    | [] -> None
-    | x :: l ->
-      (match l with
-       | [] -> None
-       | y :: l0 ->
-         (match l0 with
-          | [] -> Some (ofbool (val_eqb x y))
-          | _ :: _ -> None)))) :: (((String ((Ascii (true, true, false,
-    false, false, true, true, false)), (String ((Ascii (false, false, false,
-    true, false, true, true, false)), (String ((Ascii (true, true, false,
-    true, false, true, true, false)), (String ((Ascii (false, true, true,
-    true, false, true, false, false)), (String ((Ascii (true, false, false,
-    false, false, true, true, false)), (String ((Ascii (false, true, true,
-    true, false, true, false, false)), (String ((Ascii (true, false, false,
-    true, false, true, true, false)), (String ((Ascii (false, true, true,
-    true, false, true, true, false)), (String ((Ascii (false, true, true,
-    false, true, true, true, false)), EmptyString)))))))))))))))))),
-    (fun a ->
-    match a with
-    | [] -> None
-    | d :: l ->
-      (match l with
-       | [] ->
-         (match v_ds d with
-          | Some x -> Some (ofbool (ds_inv x))
-          | None -> None)
-       | _ :: _ -> None))) :: [])))))))))))))))))))))
-
-(** val is_ascii_op : string -> bool **)
-
-let is_ascii_op op =
-  (||)
-    ((||)
-      (eqb1 (substring O (S (S O)) op) (String ((Ascii (true, false, false,
-        false, false, true, true, false)), (String ((Ascii (false, true,
-        true, true, false, true, false, false)), EmptyString)))))
-      (eqb1 (substring O (S (S (S (S O)))) op) (String ((Ascii (true, true,
-        false, false, true, true, true, false)), (String ((Ascii (false,
-        true, true, true, false, true, false, false)), (String ((Ascii (true,
-        false, false, false, false, true, true, false)), (String ((Ascii
-        (false, true, true, true, false, true, false, false)),
-        EmptyString))))))))))
-    (eqb1 (substring O (S (S (S (S (S (S O)))))) op) (String ((Ascii (true,
-      true, false, false, false, true, true, false)), (String ((Ascii (false,
-      false, false, true, false, true, true, false)), (String ((Ascii (true,
-      true, false, true, false, true, true, false)), (String ((Ascii (false,
-      true, true, true, false, true, false, false)), (String ((Ascii (true,
-      false, false, false, false, true, true, false)), (String ((Ascii
-      (false, true, true, true, false, true, false, false)),
-      EmptyString)))))))))))))
-
-(** val d_ascii : string -> val0 -> val0 option **)
-
-let d_ascii op = function
-| VL args -> (match alookup op ascii_ops with
-              | Some h -> h args
-              | None -> None)
-| _ -> None
 
 (** val cfg_of : n -> n -> kcfg **)
 
@@ -5916,4 +4163,4 @@ let dispatch op v =
             (String ((Ascii (false, true, true, true, false, true, false,
             false)), EmptyString))))))))
        then d_spec_kmer op v
-       else if is_ascii_op op then d_ascii op v else None
+       else None
